@@ -12,7 +12,8 @@
 
    Known-defect switches (DESIGN.md section 5.3): each selects the behaviour of the code as it is now vs. another
    variant.  After the fix: commits of this round the code corresponds to
-       WakeAfterSpawn = TRUE (D3), KeepRefs = TRUE (D1), SafeFail = TRUE (D12/D13), CancelWakes = TRUE (D17).
+       WakeAfterSpawn = TRUE (D3), KeepRefs = TRUE (D1), SafeFail = TRUE (D12/D13), CancelWakes = TRUE (D17),
+       JoinWatches = TRUE (D16/D22).
    Open findings are windows recorded in the ghost variable `hit`: properties are checked for behaviours with
    hit = {} ("no other violation"), and each open finding is reproduced by asking TLC to reach its window.
 
@@ -23,14 +24,16 @@ EXTENDS Naturals, FiniteSets, Sequences, TLC
 CONSTANTS Pids,          \* pool of fresh process ids (respawn consumes them)
           MaxW,          \* max_workers
           K,             \* number of tasks submitted, ids 1..K in order
-          Kind,          \* task kind: [1..K -> {"ok", "bad_arg", "crash", "long", "big", "unload"}]
+          Kind,          \* task kind: [1..K -> {"ok", "bad_arg", "crash", "long", "big", "unload", "huge"}]
           QSize,         \* capacity of the call queue (real: 2*max_workers + 1)
           MaxCrash, MaxTimeout, MaxCancel,
           HasTimeout,    \* workers have an idle timeout
           FinalOps,      \* what the user does after submitting: subset of
                          \*   {"none", "shutdown_wait", "shutdown_nowait", "kill", "del", "exit"}
           InitFails,     \* workers whose initializer raises
-          WakeAfterSpawn, KeepRefs, SafeFail, CancelWakes
+          WakeAfterSpawn, KeepRefs, SafeFail, CancelWakes,
+          CloseReaderOnKill,  \* D21: kill_workers() closes the parent's read end of the call queue
+          JoinWatches    \* D16/D22: the final join watches the workers' sentinels and kills the others when one died abruptly
 
 Tasks == 1..K
 Sentinel == 0
@@ -39,7 +42,7 @@ Sentinel == 0
 variables
   shutdownF = FALSE, brokenF = FALSE, killF = FALSE, execAlive = TRUE, refsDropped = FALSE, globalExit = FALSE,
   pending = {}, fut = [t \in Tasks |-> "new"], workIds = <<>>, running = {},
-  sem = QSize, buf = <<>>, pipe = <<>>, cqClosed = FALSE,
+  sem = QSize, buf = <<>>, pipe = <<>>, cqClosed = FALSE, rdClosed = FALSE,
   rq = <<>>, wake = 0, wkClosed = FALSE,
   procs = {}, alive = [p \in Pids |-> "unborn"], holding = [p \in Pids |-> 0], exitLock = [p \in Pids |-> 0],
   announced = [p \in Pids |-> FALSE],
@@ -146,6 +149,7 @@ begin
                    alive[p] := IF Dead(p) THEN alive[p] ELSE "dead"; procs := procs \ {p};
                 end with;
              end while;
+             if CloseReaderOnKill then rdClosed := TRUE; end if;
              goto mj1;
           elsif msg[1] = "res" then
  mres:       if msg[2] \in pending then
@@ -182,6 +186,7 @@ begin
                       alive[p] := IF Dead(p) THEN alive[p] ELSE "dead"; procs := procs \ {p};
                    end with;
                 end while;
+                if CloseReaderOnKill then rdClosed := TRUE; end if;
              end if;
  mspend:     if pending = {} then
  mj1:           await mgmt = "free";               \* shutdown_workers: release every exit lock, count the children
@@ -196,13 +201,25 @@ begin
  mj4:           await shut = "free"; wkClosed := TRUE;
  mj5l:          await mgmt = "free"; mgmt := "M";   \* final join loop, holding the management lock
  mj5:           while procs # {} do
-                   with p \in procs do
-                      await Dead(p) \/ (\A q \in procs : ~Dead(q));
-                      if ~Dead(p) then
-                         \* nobody can be joined: the manager is stuck here (a crash in this phase goes unnoticed)
-                         await FALSE;
-                      else procs := procs \ {p}; end if;
-                   end with;
+                   if JoinWatches then
+                      \* wait(sentinels): join the workers as they exit; one that did not exit cleanly may have left the
+                      \* queue locks dirty: the others are killed (there is no pending work here)
+                      await \E p \in procs : Dead(p);
+                      with p \in {q \in procs : Dead(q)} do
+                         if alive[p] = "dead" then
+                            alive := [q \in Pids |-> IF q \in procs /\ Alive(q) THEN "dead" ELSE alive[q]];
+                            procs := {};
+                         else procs := procs \ {p}; end if;
+                      end with;
+                   else
+                      with p \in procs do
+                         await Dead(p) \/ (\A q \in procs : ~Dead(q));
+                         if ~Dead(p) then
+                            \* nobody can be joined: the manager is stuck here (a crash in this phase goes unnoticed)
+                            await FALSE;
+                         else procs := procs \ {p}; end if;
+                      end with;
+                   end if;
                 end while;
  mj6:           mgmt := "free"; mgr := "done"; goto mdone;
              end if;
@@ -217,13 +234,19 @@ begin
  f0: while TRUE do
  ftake: await buf # <<>>; fobj := Head(buf); buf := Tail(buf);
  fsend: if fobj # Sentinel /\ Kind[fobj] = "bad_arg" then
-            sem := sem + 1;                              \* _feed: queue_sem.release() then onerror(e, obj)
- ferrp:     if fobj \in pending then pending := pending \ {fobj}; fut[fobj] := "exc_pickle"; end if;
- ferrr:     running := running \ {fobj};
- ferrw:     await shut = "free"; if ~wkClosed then wake := wake + 1; end if;
+            sem := sem + 1; goto ferrp;                  \* _feed: queue_sem.release() then onerror(e, obj)
+        elsif fobj # Sentinel /\ Kind[fobj] = "huge" then
+            \* a payload larger than the pipe buffer: write() returns once a worker reads the pipe, or fails with EPIPE
+            \* when no read end is left (D21: the parent keeps its own read end open unless CloseReaderOnKill)
+ fhuge:     await (pipe = <<>> /\ \E p \in Pids : Alive(p) /\ pc[p] = "wpoll") \/ (rdClosed /\ \A p \in Pids : ~Alive(p));
+            if rdClosed /\ \A p \in Pids : ~Alive(p) then sem := sem + 1; goto ferrp;
+            else pipe := Append(pipe, fobj); goto f0; end if;
         else
-            pipe := Append(pipe, fobj);
+            pipe := Append(pipe, fobj); goto f0;
         end if;
+ ferrp: if fobj \in pending then pending := pending \ {fobj}; fut[fobj] := "exc_pickle"; end if;
+ ferrr: running := running \ {fobj};
+ ferrw: await shut = "free"; if ~wkClosed then wake := wake + 1; end if;
      end while;
 end process;
 
@@ -281,17 +304,18 @@ begin
           hit := hit \cup (IF pc[p] = "wsend2" /\ holding[p] # 0 /\ Kind[holding[p]] = "big" THEN {"D7"} ELSE {})
                      \cup (IF mgmt = p THEN {"D14"} ELSE {})
                      \cup (IF pc[p] = "wann3" THEN {"D15"} ELSE {})
-                     \cup (IF pc["M"] \in {"mj1", "mj2", "mj3", "mj4", "mj5l", "mj5"} /\ ~brokenF THEN {"D16"} ELSE {});
+                     \cup (IF pc["M"] \in {"mspend", "mj1", "mj2", "mj3", "mj4", "mj5l", "mj5"} /\ ~brokenF /\ ~JoinWatches THEN {"D16"} ELSE {});
        end with;
      end while;
 end process;
 end algorithm; *)
 \* BEGIN TRANSLATION
 VARIABLES pc, shutdownF, brokenF, killF, execAlive, refsDropped, globalExit, 
-          pending, fut, workIds, running, sem, buf, pipe, cqClosed, rq, wake, 
-          wkClosed, procs, alive, holding, exitLock, announced, rlock, wlock, 
-          mgmt, shut, mgrStarted, mgr, watch, ready, msg, cur, nStop, nSent, 
-          crashes, timeouts, cancels, execCount, cancelOK, hit, userDone, fop
+          pending, fut, workIds, running, sem, buf, pipe, cqClosed, rdClosed, 
+          rq, wake, wkClosed, procs, alive, holding, exitLock, announced, 
+          rlock, wlock, mgmt, shut, mgrStarted, mgr, watch, ready, msg, cur, 
+          nStop, nSent, crashes, timeouts, cancels, execCount, cancelOK, hit, 
+          userDone, fop
 
 (* define statement *)
 Fresh == {p \in Pids : alive[p] = "unborn"}
@@ -305,11 +329,11 @@ Busy == {p \in Pids : Alive(p) /\ holding[p] # 0}
 VARIABLES ut, fobj, item
 
 vars == << pc, shutdownF, brokenF, killF, execAlive, refsDropped, globalExit, 
-           pending, fut, workIds, running, sem, buf, pipe, cqClosed, rq, wake, 
-           wkClosed, procs, alive, holding, exitLock, announced, rlock, wlock, 
-           mgmt, shut, mgrStarted, mgr, watch, ready, msg, cur, nStop, nSent, 
-           crashes, timeouts, cancels, execCount, cancelOK, hit, userDone, 
-           fop, ut, fobj, item >>
+           pending, fut, workIds, running, sem, buf, pipe, cqClosed, rdClosed, 
+           rq, wake, wkClosed, procs, alive, holding, exitLock, announced, 
+           rlock, wlock, mgmt, shut, mgrStarted, mgr, watch, ready, msg, cur, 
+           nStop, nSent, crashes, timeouts, cancels, execCount, cancelOK, hit, 
+           userDone, fop, ut, fobj, item >>
 
 ProcSet == {"U"} \cup {"C"} \cup {"M"} \cup {"F"} \cup (Pids) \cup {"E"}
 
@@ -328,6 +352,7 @@ Init == (* Global variables *)
         /\ buf = <<>>
         /\ pipe = <<>>
         /\ cqClosed = FALSE
+        /\ rdClosed = FALSE
         /\ rq = <<>>
         /\ wake = 0
         /\ wkClosed = FALSE
@@ -375,11 +400,11 @@ u0 == /\ pc["U"] = "u0"
             ELSE /\ pc' = [pc EXCEPT !["U"] = "uf"]
       /\ UNCHANGED << shutdownF, brokenF, killF, execAlive, refsDropped, 
                       globalExit, pending, fut, workIds, running, sem, buf, 
-                      pipe, cqClosed, rq, wake, wkClosed, procs, alive, 
-                      holding, exitLock, announced, rlock, wlock, mgmt, shut, 
-                      mgrStarted, mgr, watch, ready, msg, cur, nStop, nSent, 
-                      crashes, timeouts, cancels, execCount, cancelOK, hit, 
-                      userDone, fop, ut, fobj, item >>
+                      pipe, cqClosed, rdClosed, rq, wake, wkClosed, procs, 
+                      alive, holding, exitLock, announced, rlock, wlock, mgmt, 
+                      shut, mgrStarted, mgr, watch, ready, msg, cur, nStop, 
+                      nSent, crashes, timeouts, cancels, execCount, cancelOK, 
+                      hit, userDone, fop, ut, fobj, item >>
 
 ucheck == /\ pc["U"] = "ucheck"
           /\ shut = "free"
@@ -392,9 +417,9 @@ ucheck == /\ pc["U"] = "ucheck"
                      /\ ut' = ut
           /\ UNCHANGED << shutdownF, brokenF, killF, execAlive, refsDropped, 
                           globalExit, pending, fut, workIds, running, sem, buf, 
-                          pipe, cqClosed, rq, wake, wkClosed, procs, alive, 
-                          holding, exitLock, announced, rlock, wlock, mgmt, 
-                          mgrStarted, mgr, watch, ready, msg, cur, nStop, 
+                          pipe, cqClosed, rdClosed, rq, wake, wkClosed, procs, 
+                          alive, holding, exitLock, announced, rlock, wlock, 
+                          mgmt, mgrStarted, mgr, watch, ready, msg, cur, nStop, 
                           nSent, crashes, timeouts, cancels, execCount, 
                           cancelOK, hit, userDone, fop, fobj, item >>
 
@@ -404,12 +429,12 @@ uenq == /\ pc["U"] = "uenq"
         /\ workIds' = Append(workIds, ut)
         /\ pc' = [pc EXCEPT !["U"] = "uwake1"]
         /\ UNCHANGED << shutdownF, brokenF, killF, execAlive, refsDropped, 
-                        globalExit, running, sem, buf, pipe, cqClosed, rq, 
-                        wake, wkClosed, procs, alive, holding, exitLock, 
-                        announced, rlock, wlock, mgmt, shut, mgrStarted, mgr, 
-                        watch, ready, msg, cur, nStop, nSent, crashes, 
-                        timeouts, cancels, execCount, cancelOK, hit, userDone, 
-                        fop, ut, fobj, item >>
+                        globalExit, running, sem, buf, pipe, cqClosed, 
+                        rdClosed, rq, wake, wkClosed, procs, alive, holding, 
+                        exitLock, announced, rlock, wlock, mgmt, shut, 
+                        mgrStarted, mgr, watch, ready, msg, cur, nStop, nSent, 
+                        crashes, timeouts, cancels, execCount, cancelOK, hit, 
+                        userDone, fop, ut, fobj, item >>
 
 uwake1 == /\ pc["U"] = "uwake1"
           /\ IF ~WakeAfterSpawn
@@ -419,9 +444,9 @@ uwake1 == /\ pc["U"] = "uwake1"
           /\ pc' = [pc EXCEPT !["U"] = "ulock"]
           /\ UNCHANGED << shutdownF, brokenF, killF, execAlive, refsDropped, 
                           globalExit, pending, fut, workIds, running, sem, buf, 
-                          pipe, cqClosed, rq, wkClosed, procs, alive, holding, 
-                          exitLock, announced, rlock, wlock, mgmt, shut, 
-                          mgrStarted, mgr, watch, ready, msg, cur, nStop, 
+                          pipe, cqClosed, rdClosed, rq, wkClosed, procs, alive, 
+                          holding, exitLock, announced, rlock, wlock, mgmt, 
+                          shut, mgrStarted, mgr, watch, ready, msg, cur, nStop, 
                           nSent, crashes, timeouts, cancels, execCount, 
                           cancelOK, hit, userDone, fop, ut, fobj, item >>
 
@@ -431,11 +456,11 @@ ulock == /\ pc["U"] = "ulock"
          /\ pc' = [pc EXCEPT !["U"] = "uspawn"]
          /\ UNCHANGED << shutdownF, brokenF, killF, execAlive, refsDropped, 
                          globalExit, pending, fut, workIds, running, sem, buf, 
-                         pipe, cqClosed, rq, wake, wkClosed, procs, alive, 
-                         holding, exitLock, announced, rlock, wlock, shut, 
-                         mgrStarted, mgr, watch, ready, msg, cur, nStop, nSent, 
-                         crashes, timeouts, cancels, execCount, cancelOK, hit, 
-                         userDone, fop, ut, fobj, item >>
+                         pipe, cqClosed, rdClosed, rq, wake, wkClosed, procs, 
+                         alive, holding, exitLock, announced, rlock, wlock, 
+                         shut, mgrStarted, mgr, watch, ready, msg, cur, nStop, 
+                         nSent, crashes, timeouts, cancels, execCount, 
+                         cancelOK, hit, userDone, fop, ut, fobj, item >>
 
 uspawn == /\ pc["U"] = "uspawn"
           /\ IF NeedSpawn
@@ -447,9 +472,9 @@ uspawn == /\ pc["U"] = "uspawn"
                      /\ UNCHANGED << procs, alive >>
           /\ UNCHANGED << shutdownF, brokenF, killF, execAlive, refsDropped, 
                           globalExit, pending, fut, workIds, running, sem, buf, 
-                          pipe, cqClosed, rq, wake, wkClosed, holding, 
-                          exitLock, announced, rlock, wlock, mgmt, shut, 
-                          mgrStarted, mgr, watch, ready, msg, cur, nStop, 
+                          pipe, cqClosed, rdClosed, rq, wake, wkClosed, 
+                          holding, exitLock, announced, rlock, wlock, mgmt, 
+                          shut, mgrStarted, mgr, watch, ready, msg, cur, nStop, 
                           nSent, crashes, timeouts, cancels, execCount, 
                           cancelOK, hit, userDone, fop, ut, fobj, item >>
 
@@ -458,22 +483,23 @@ ustart == /\ pc["U"] = "ustart"
           /\ pc' = [pc EXCEPT !["U"] = "uunlock"]
           /\ UNCHANGED << shutdownF, brokenF, killF, execAlive, refsDropped, 
                           globalExit, pending, fut, workIds, running, sem, buf, 
-                          pipe, cqClosed, rq, wake, wkClosed, procs, alive, 
-                          holding, exitLock, announced, rlock, wlock, mgmt, 
-                          shut, mgr, watch, ready, msg, cur, nStop, nSent, 
-                          crashes, timeouts, cancels, execCount, cancelOK, hit, 
-                          userDone, fop, ut, fobj, item >>
+                          pipe, cqClosed, rdClosed, rq, wake, wkClosed, procs, 
+                          alive, holding, exitLock, announced, rlock, wlock, 
+                          mgmt, shut, mgr, watch, ready, msg, cur, nStop, 
+                          nSent, crashes, timeouts, cancels, execCount, 
+                          cancelOK, hit, userDone, fop, ut, fobj, item >>
 
 uunlock == /\ pc["U"] = "uunlock"
            /\ mgmt' = "free"
            /\ pc' = [pc EXCEPT !["U"] = "uwake2"]
            /\ UNCHANGED << shutdownF, brokenF, killF, execAlive, refsDropped, 
                            globalExit, pending, fut, workIds, running, sem, 
-                           buf, pipe, cqClosed, rq, wake, wkClosed, procs, 
-                           alive, holding, exitLock, announced, rlock, wlock, 
-                           shut, mgrStarted, mgr, watch, ready, msg, cur, 
-                           nStop, nSent, crashes, timeouts, cancels, execCount, 
-                           cancelOK, hit, userDone, fop, ut, fobj, item >>
+                           buf, pipe, cqClosed, rdClosed, rq, wake, wkClosed, 
+                           procs, alive, holding, exitLock, announced, rlock, 
+                           wlock, shut, mgrStarted, mgr, watch, ready, msg, 
+                           cur, nStop, nSent, crashes, timeouts, cancels, 
+                           execCount, cancelOK, hit, userDone, fop, ut, fobj, 
+                           item >>
 
 uwake2 == /\ pc["U"] = "uwake2"
           /\ IF WakeAfterSpawn
@@ -483,9 +509,9 @@ uwake2 == /\ pc["U"] = "uwake2"
           /\ pc' = [pc EXCEPT !["U"] = "uret"]
           /\ UNCHANGED << shutdownF, brokenF, killF, execAlive, refsDropped, 
                           globalExit, pending, fut, workIds, running, sem, buf, 
-                          pipe, cqClosed, rq, wkClosed, procs, alive, holding, 
-                          exitLock, announced, rlock, wlock, mgmt, shut, 
-                          mgrStarted, mgr, watch, ready, msg, cur, nStop, 
+                          pipe, cqClosed, rdClosed, rq, wkClosed, procs, alive, 
+                          holding, exitLock, announced, rlock, wlock, mgmt, 
+                          shut, mgrStarted, mgr, watch, ready, msg, cur, nStop, 
                           nSent, crashes, timeouts, cancels, execCount, 
                           cancelOK, hit, userDone, fop, ut, fobj, item >>
 
@@ -495,11 +521,11 @@ uret == /\ pc["U"] = "uret"
         /\ pc' = [pc EXCEPT !["U"] = "u0"]
         /\ UNCHANGED << shutdownF, brokenF, killF, execAlive, refsDropped, 
                         globalExit, pending, fut, workIds, running, sem, buf, 
-                        pipe, cqClosed, rq, wake, wkClosed, procs, alive, 
-                        holding, exitLock, announced, rlock, wlock, mgmt, 
-                        mgrStarted, mgr, watch, ready, msg, cur, nStop, nSent, 
-                        crashes, timeouts, cancels, execCount, cancelOK, hit, 
-                        userDone, fop, fobj, item >>
+                        pipe, cqClosed, rdClosed, rq, wake, wkClosed, procs, 
+                        alive, holding, exitLock, announced, rlock, wlock, 
+                        mgmt, mgrStarted, mgr, watch, ready, msg, cur, nStop, 
+                        nSent, crashes, timeouts, cancels, execCount, cancelOK, 
+                        hit, userDone, fop, fobj, item >>
 
 uf == /\ pc["U"] = "uf"
       /\ \E op \in FinalOps:
@@ -507,11 +533,11 @@ uf == /\ pc["U"] = "uf"
       /\ pc' = [pc EXCEPT !["U"] = "uf2"]
       /\ UNCHANGED << shutdownF, brokenF, killF, execAlive, refsDropped, 
                       globalExit, pending, fut, workIds, running, sem, buf, 
-                      pipe, cqClosed, rq, wake, wkClosed, procs, alive, 
-                      holding, exitLock, announced, rlock, wlock, mgmt, shut, 
-                      mgrStarted, mgr, watch, ready, msg, cur, nStop, nSent, 
-                      crashes, timeouts, cancels, execCount, cancelOK, hit, 
-                      userDone, ut, fobj, item >>
+                      pipe, cqClosed, rdClosed, rq, wake, wkClosed, procs, 
+                      alive, holding, exitLock, announced, rlock, wlock, mgmt, 
+                      shut, mgrStarted, mgr, watch, ready, msg, cur, nStop, 
+                      nSent, crashes, timeouts, cancels, execCount, cancelOK, 
+                      hit, userDone, ut, fobj, item >>
 
 uf2 == /\ pc["U"] = "uf2"
        /\ IF fop \in {"shutdown_nowait", "shutdown_wait", "kill"}
@@ -530,10 +556,10 @@ uf2 == /\ pc["U"] = "uf2"
                                         /\ UNCHANGED globalExit
                   /\ UNCHANGED << shutdownF, killF >>
        /\ UNCHANGED << brokenF, execAlive, refsDropped, pending, fut, workIds, 
-                       running, sem, buf, pipe, cqClosed, rq, wake, wkClosed, 
-                       procs, alive, holding, exitLock, announced, rlock, 
-                       wlock, mgmt, shut, mgrStarted, mgr, watch, ready, msg, 
-                       cur, nStop, nSent, crashes, timeouts, cancels, 
+                       running, sem, buf, pipe, cqClosed, rdClosed, rq, wake, 
+                       wkClosed, procs, alive, holding, exitLock, announced, 
+                       rlock, wlock, mgmt, shut, mgrStarted, mgr, watch, ready, 
+                       msg, cur, nStop, nSent, crashes, timeouts, cancels, 
                        execCount, cancelOK, hit, userDone, fop, ut, fobj, item >>
 
 ufw == /\ pc["U"] = "ufw"
@@ -549,11 +575,11 @@ ufw == /\ pc["U"] = "ufw"
        /\ pc' = [pc EXCEPT !["U"] = "ujoin"]
        /\ UNCHANGED << shutdownF, brokenF, killF, execAlive, globalExit, 
                        pending, fut, workIds, running, sem, buf, pipe, 
-                       cqClosed, rq, wkClosed, procs, alive, holding, exitLock, 
-                       announced, rlock, wlock, mgmt, shut, mgrStarted, mgr, 
-                       watch, ready, msg, cur, nStop, nSent, crashes, timeouts, 
-                       cancels, execCount, cancelOK, hit, userDone, fop, ut, 
-                       fobj, item >>
+                       cqClosed, rdClosed, rq, wkClosed, procs, alive, holding, 
+                       exitLock, announced, rlock, wlock, mgmt, shut, 
+                       mgrStarted, mgr, watch, ready, msg, cur, nStop, nSent, 
+                       crashes, timeouts, cancels, execCount, cancelOK, hit, 
+                       userDone, fop, ut, fobj, item >>
 
 ujoin == /\ pc["U"] = "ujoin"
          /\ IF fop # "shutdown_nowait" /\ mgrStarted
@@ -562,10 +588,10 @@ ujoin == /\ pc["U"] = "ujoin"
          /\ pc' = [pc EXCEPT !["U"] = "uend"]
          /\ UNCHANGED << shutdownF, brokenF, killF, execAlive, refsDropped, 
                          globalExit, pending, fut, workIds, running, sem, buf, 
-                         pipe, cqClosed, rq, wake, wkClosed, procs, alive, 
-                         holding, exitLock, announced, rlock, wlock, mgmt, 
-                         shut, mgrStarted, mgr, watch, ready, msg, cur, nStop, 
-                         nSent, crashes, timeouts, cancels, execCount, 
+                         pipe, cqClosed, rdClosed, rq, wake, wkClosed, procs, 
+                         alive, holding, exitLock, announced, rlock, wlock, 
+                         mgmt, shut, mgrStarted, mgr, watch, ready, msg, cur, 
+                         nStop, nSent, crashes, timeouts, cancels, execCount, 
                          cancelOK, hit, userDone, fop, ut, fobj, item >>
 
 udel == /\ pc["U"] = "udel"
@@ -578,8 +604,8 @@ udel == /\ pc["U"] = "udel"
         /\ pc' = [pc EXCEPT !["U"] = "uend"]
         /\ UNCHANGED << shutdownF, brokenF, killF, refsDropped, globalExit, 
                         pending, fut, workIds, running, sem, buf, pipe, 
-                        cqClosed, rq, wkClosed, procs, alive, holding, 
-                        exitLock, announced, rlock, wlock, mgmt, shut, 
+                        cqClosed, rdClosed, rq, wkClosed, procs, alive, 
+                        holding, exitLock, announced, rlock, wlock, mgmt, shut, 
                         mgrStarted, mgr, watch, ready, msg, cur, nStop, nSent, 
                         crashes, timeouts, cancels, execCount, cancelOK, hit, 
                         userDone, fop, ut, fobj, item >>
@@ -593,8 +619,8 @@ uexw == /\ pc["U"] = "uexw"
         /\ pc' = [pc EXCEPT !["U"] = "uexj"]
         /\ UNCHANGED << shutdownF, brokenF, killF, execAlive, refsDropped, 
                         globalExit, pending, fut, workIds, running, sem, buf, 
-                        pipe, cqClosed, rq, wkClosed, procs, alive, holding, 
-                        exitLock, announced, rlock, wlock, mgmt, shut, 
+                        pipe, cqClosed, rdClosed, rq, wkClosed, procs, alive, 
+                        holding, exitLock, announced, rlock, wlock, mgmt, shut, 
                         mgrStarted, mgr, watch, ready, msg, cur, nStop, nSent, 
                         crashes, timeouts, cancels, execCount, cancelOK, hit, 
                         userDone, fop, ut, fobj, item >>
@@ -606,22 +632,22 @@ uexj == /\ pc["U"] = "uexj"
         /\ pc' = [pc EXCEPT !["U"] = "uend"]
         /\ UNCHANGED << shutdownF, brokenF, killF, execAlive, refsDropped, 
                         globalExit, pending, fut, workIds, running, sem, buf, 
-                        pipe, cqClosed, rq, wake, wkClosed, procs, alive, 
-                        holding, exitLock, announced, rlock, wlock, mgmt, shut, 
-                        mgrStarted, mgr, watch, ready, msg, cur, nStop, nSent, 
-                        crashes, timeouts, cancels, execCount, cancelOK, hit, 
-                        userDone, fop, ut, fobj, item >>
+                        pipe, cqClosed, rdClosed, rq, wake, wkClosed, procs, 
+                        alive, holding, exitLock, announced, rlock, wlock, 
+                        mgmt, shut, mgrStarted, mgr, watch, ready, msg, cur, 
+                        nStop, nSent, crashes, timeouts, cancels, execCount, 
+                        cancelOK, hit, userDone, fop, ut, fobj, item >>
 
 uend == /\ pc["U"] = "uend"
         /\ userDone' = TRUE
         /\ pc' = [pc EXCEPT !["U"] = "Done"]
         /\ UNCHANGED << shutdownF, brokenF, killF, execAlive, refsDropped, 
                         globalExit, pending, fut, workIds, running, sem, buf, 
-                        pipe, cqClosed, rq, wake, wkClosed, procs, alive, 
-                        holding, exitLock, announced, rlock, wlock, mgmt, shut, 
-                        mgrStarted, mgr, watch, ready, msg, cur, nStop, nSent, 
-                        crashes, timeouts, cancels, execCount, cancelOK, hit, 
-                        fop, ut, fobj, item >>
+                        pipe, cqClosed, rdClosed, rq, wake, wkClosed, procs, 
+                        alive, holding, exitLock, announced, rlock, wlock, 
+                        mgmt, shut, mgrStarted, mgr, watch, ready, msg, cur, 
+                        nStop, nSent, crashes, timeouts, cancels, execCount, 
+                        cancelOK, hit, fop, ut, fobj, item >>
 
 user == u0 \/ ucheck \/ uenq \/ uwake1 \/ ulock \/ uspawn \/ ustart
            \/ uunlock \/ uwake2 \/ uret \/ uf \/ uf2 \/ ufw \/ ujoin
@@ -638,8 +664,8 @@ c0 == /\ pc["C"] = "c0"
                  /\ UNCHANGED << fut, cancels, cancelOK >>
       /\ UNCHANGED << shutdownF, brokenF, killF, execAlive, refsDropped, 
                       globalExit, pending, workIds, running, sem, buf, pipe, 
-                      cqClosed, rq, wake, wkClosed, procs, alive, holding, 
-                      exitLock, announced, rlock, wlock, mgmt, shut, 
+                      cqClosed, rdClosed, rq, wake, wkClosed, procs, alive, 
+                      holding, exitLock, announced, rlock, wlock, mgmt, shut, 
                       mgrStarted, mgr, watch, ready, msg, cur, nStop, nSent, 
                       crashes, timeouts, execCount, hit, userDone, fop, ut, 
                       fobj, item >>
@@ -651,20 +677,20 @@ m0 == /\ pc["M"] = "m0"
       /\ pc' = [pc EXCEPT !["M"] = "mloop"]
       /\ UNCHANGED << shutdownF, brokenF, killF, execAlive, refsDropped, 
                       globalExit, pending, fut, workIds, running, sem, buf, 
-                      pipe, cqClosed, rq, wake, wkClosed, procs, alive, 
-                      holding, exitLock, announced, rlock, wlock, mgmt, shut, 
-                      mgrStarted, mgr, watch, ready, msg, cur, nStop, nSent, 
-                      crashes, timeouts, cancels, execCount, cancelOK, hit, 
-                      userDone, fop, ut, fobj, item >>
+                      pipe, cqClosed, rdClosed, rq, wake, wkClosed, procs, 
+                      alive, holding, exitLock, announced, rlock, wlock, mgmt, 
+                      shut, mgrStarted, mgr, watch, ready, msg, cur, nStop, 
+                      nSent, crashes, timeouts, cancels, execCount, cancelOK, 
+                      hit, userDone, fop, ut, fobj, item >>
 
 mloop == /\ pc["M"] = "mloop"
          /\ pc' = [pc EXCEPT !["M"] = "mfull"]
          /\ UNCHANGED << shutdownF, brokenF, killF, execAlive, refsDropped, 
                          globalExit, pending, fut, workIds, running, sem, buf, 
-                         pipe, cqClosed, rq, wake, wkClosed, procs, alive, 
-                         holding, exitLock, announced, rlock, wlock, mgmt, 
-                         shut, mgrStarted, mgr, watch, ready, msg, cur, nStop, 
-                         nSent, crashes, timeouts, cancels, execCount, 
+                         pipe, cqClosed, rdClosed, rq, wake, wkClosed, procs, 
+                         alive, holding, exitLock, announced, rlock, wlock, 
+                         mgmt, shut, mgrStarted, mgr, watch, ready, msg, cur, 
+                         nStop, nSent, crashes, timeouts, cancels, execCount, 
                          cancelOK, hit, userDone, fop, ut, fobj, item >>
 
 mfull == /\ pc["M"] = "mfull"
@@ -673,10 +699,10 @@ mfull == /\ pc["M"] = "mfull"
                ELSE /\ pc' = [pc EXCEPT !["M"] = "mtake"]
          /\ UNCHANGED << shutdownF, brokenF, killF, execAlive, refsDropped, 
                          globalExit, pending, fut, workIds, running, sem, buf, 
-                         pipe, cqClosed, rq, wake, wkClosed, procs, alive, 
-                         holding, exitLock, announced, rlock, wlock, mgmt, 
-                         shut, mgrStarted, mgr, watch, ready, msg, cur, nStop, 
-                         nSent, crashes, timeouts, cancels, execCount, 
+                         pipe, cqClosed, rdClosed, rq, wake, wkClosed, procs, 
+                         alive, holding, exitLock, announced, rlock, wlock, 
+                         mgmt, shut, mgrStarted, mgr, watch, ready, msg, cur, 
+                         nStop, nSent, crashes, timeouts, cancels, execCount, 
                          cancelOK, hit, userDone, fop, ut, fobj, item >>
 
 mtake == /\ pc["M"] = "mtake"
@@ -685,11 +711,11 @@ mtake == /\ pc["M"] = "mtake"
          /\ pc' = [pc EXCEPT !["M"] = "mrun"]
          /\ UNCHANGED << shutdownF, brokenF, killF, execAlive, refsDropped, 
                          globalExit, pending, fut, running, sem, buf, pipe, 
-                         cqClosed, rq, wake, wkClosed, procs, alive, holding, 
-                         exitLock, announced, rlock, wlock, mgmt, shut, 
-                         mgrStarted, mgr, watch, ready, msg, nStop, nSent, 
-                         crashes, timeouts, cancels, execCount, cancelOK, hit, 
-                         userDone, fop, ut, fobj, item >>
+                         cqClosed, rdClosed, rq, wake, wkClosed, procs, alive, 
+                         holding, exitLock, announced, rlock, wlock, mgmt, 
+                         shut, mgrStarted, mgr, watch, ready, msg, nStop, 
+                         nSent, crashes, timeouts, cancels, execCount, 
+                         cancelOK, hit, userDone, fop, ut, fobj, item >>
 
 mrun == /\ pc["M"] = "mrun"
         /\ IF fut[cur] = "cancelled"
@@ -705,22 +731,22 @@ mrun == /\ pc["M"] = "mrun"
                    /\ UNCHANGED << pending, wake >>
         /\ UNCHANGED << shutdownF, brokenF, killF, execAlive, refsDropped, 
                         globalExit, workIds, running, sem, buf, pipe, cqClosed, 
-                        rq, wkClosed, procs, alive, holding, exitLock, 
-                        announced, rlock, wlock, mgmt, shut, mgrStarted, mgr, 
-                        watch, ready, msg, cur, nStop, nSent, crashes, 
-                        timeouts, cancels, execCount, cancelOK, hit, userDone, 
-                        fop, ut, fobj, item >>
+                        rdClosed, rq, wkClosed, procs, alive, holding, 
+                        exitLock, announced, rlock, wlock, mgmt, shut, 
+                        mgrStarted, mgr, watch, ready, msg, cur, nStop, nSent, 
+                        crashes, timeouts, cancels, execCount, cancelOK, hit, 
+                        userDone, fop, ut, fobj, item >>
 
 mradd == /\ pc["M"] = "mradd"
          /\ running' = (running \cup {cur})
          /\ pc' = [pc EXCEPT !["M"] = "mput"]
          /\ UNCHANGED << shutdownF, brokenF, killF, execAlive, refsDropped, 
                          globalExit, pending, fut, workIds, sem, buf, pipe, 
-                         cqClosed, rq, wake, wkClosed, procs, alive, holding, 
-                         exitLock, announced, rlock, wlock, mgmt, shut, 
-                         mgrStarted, mgr, watch, ready, msg, cur, nStop, nSent, 
-                         crashes, timeouts, cancels, execCount, cancelOK, hit, 
-                         userDone, fop, ut, fobj, item >>
+                         cqClosed, rdClosed, rq, wake, wkClosed, procs, alive, 
+                         holding, exitLock, announced, rlock, wlock, mgmt, 
+                         shut, mgrStarted, mgr, watch, ready, msg, cur, nStop, 
+                         nSent, crashes, timeouts, cancels, execCount, 
+                         cancelOK, hit, userDone, fop, ut, fobj, item >>
 
 mput == /\ pc["M"] = "mput"
         /\ sem > 0
@@ -729,8 +755,8 @@ mput == /\ pc["M"] = "mput"
         /\ pc' = [pc EXCEPT !["M"] = "mfull"]
         /\ UNCHANGED << shutdownF, brokenF, killF, execAlive, refsDropped, 
                         globalExit, pending, fut, workIds, running, pipe, 
-                        cqClosed, rq, wake, wkClosed, procs, alive, holding, 
-                        exitLock, announced, rlock, wlock, mgmt, shut, 
+                        cqClosed, rdClosed, rq, wake, wkClosed, procs, alive, 
+                        holding, exitLock, announced, rlock, wlock, mgmt, shut, 
                         mgrStarted, mgr, watch, ready, msg, cur, nStop, nSent, 
                         crashes, timeouts, cancels, execCount, cancelOK, hit, 
                         userDone, fop, ut, fobj, item >>
@@ -740,11 +766,11 @@ msnap == /\ pc["M"] = "msnap"
          /\ pc' = [pc EXCEPT !["M"] = "mwait"]
          /\ UNCHANGED << shutdownF, brokenF, killF, execAlive, refsDropped, 
                          globalExit, pending, fut, workIds, running, sem, buf, 
-                         pipe, cqClosed, rq, wake, wkClosed, procs, alive, 
-                         holding, exitLock, announced, rlock, wlock, mgmt, 
-                         shut, mgrStarted, mgr, ready, msg, cur, nStop, nSent, 
-                         crashes, timeouts, cancels, execCount, cancelOK, hit, 
-                         userDone, fop, ut, fobj, item >>
+                         pipe, cqClosed, rdClosed, rq, wake, wkClosed, procs, 
+                         alive, holding, exitLock, announced, rlock, wlock, 
+                         mgmt, shut, mgrStarted, mgr, ready, msg, cur, nStop, 
+                         nSent, crashes, timeouts, cancels, execCount, 
+                         cancelOK, hit, userDone, fop, ut, fobj, item >>
 
 mwait == /\ pc["M"] = "mwait"
          /\ rq # <<>> \/ wake > 0 \/ (\E p \in watch : Dead(p))
@@ -756,11 +782,11 @@ mwait == /\ pc["M"] = "mwait"
          /\ pc' = [pc EXCEPT !["M"] = "mrecv"]
          /\ UNCHANGED << shutdownF, brokenF, killF, execAlive, refsDropped, 
                          globalExit, pending, fut, workIds, running, sem, buf, 
-                         pipe, cqClosed, rq, wake, wkClosed, procs, alive, 
-                         holding, exitLock, announced, rlock, wlock, mgmt, 
-                         shut, mgrStarted, mgr, watch, msg, cur, nStop, nSent, 
-                         crashes, timeouts, cancels, execCount, cancelOK, hit, 
-                         userDone, fop, ut, fobj, item >>
+                         pipe, cqClosed, rdClosed, rq, wake, wkClosed, procs, 
+                         alive, holding, exitLock, announced, rlock, wlock, 
+                         mgmt, shut, mgrStarted, mgr, watch, msg, cur, nStop, 
+                         nSent, crashes, timeouts, cancels, execCount, 
+                         cancelOK, hit, userDone, fop, ut, fobj, item >>
 
 mrecv == /\ pc["M"] = "mrecv"
          /\ IF ready = "res"
@@ -774,20 +800,20 @@ mrecv == /\ pc["M"] = "mrecv"
          /\ pc' = [pc EXCEPT !["M"] = "mclear"]
          /\ UNCHANGED << shutdownF, brokenF, killF, execAlive, refsDropped, 
                          globalExit, pending, fut, workIds, running, sem, buf, 
-                         pipe, cqClosed, wake, wkClosed, procs, alive, holding, 
-                         exitLock, announced, rlock, wlock, mgmt, shut, 
-                         mgrStarted, mgr, watch, ready, cur, nStop, nSent, 
-                         crashes, timeouts, cancels, execCount, cancelOK, hit, 
-                         userDone, fop, ut, fobj, item >>
+                         pipe, cqClosed, rdClosed, wake, wkClosed, procs, 
+                         alive, holding, exitLock, announced, rlock, wlock, 
+                         mgmt, shut, mgrStarted, mgr, watch, ready, cur, nStop, 
+                         nSent, crashes, timeouts, cancels, execCount, 
+                         cancelOK, hit, userDone, fop, ut, fobj, item >>
 
 mclear == /\ pc["M"] = "mclear"
           /\ wake' = 0
           /\ pc' = [pc EXCEPT !["M"] = "mp"]
           /\ UNCHANGED << shutdownF, brokenF, killF, execAlive, refsDropped, 
                           globalExit, pending, fut, workIds, running, sem, buf, 
-                          pipe, cqClosed, rq, wkClosed, procs, alive, holding, 
-                          exitLock, announced, rlock, wlock, mgmt, shut, 
-                          mgrStarted, mgr, watch, ready, msg, cur, nStop, 
+                          pipe, cqClosed, rdClosed, rq, wkClosed, procs, alive, 
+                          holding, exitLock, announced, rlock, wlock, mgmt, 
+                          shut, mgrStarted, mgr, watch, ready, msg, cur, nStop, 
                           nSent, crashes, timeouts, cancels, execCount, 
                           cancelOK, hit, userDone, fop, ut, fobj, item >>
 
@@ -801,11 +827,11 @@ mp == /\ pc["M"] = "mp"
                                   ELSE /\ pc' = [pc EXCEPT !["M"] = "msd"]
       /\ UNCHANGED << shutdownF, brokenF, killF, execAlive, refsDropped, 
                       globalExit, pending, fut, workIds, running, sem, buf, 
-                      pipe, cqClosed, rq, wake, wkClosed, procs, alive, 
-                      holding, exitLock, announced, rlock, wlock, mgmt, shut, 
-                      mgrStarted, mgr, watch, ready, msg, cur, nStop, nSent, 
-                      crashes, timeouts, cancels, execCount, cancelOK, hit, 
-                      userDone, fop, ut, fobj, item >>
+                      pipe, cqClosed, rdClosed, rq, wake, wkClosed, procs, 
+                      alive, holding, exitLock, announced, rlock, wlock, mgmt, 
+                      shut, mgrStarted, mgr, watch, ready, msg, cur, nStop, 
+                      nSent, crashes, timeouts, cancels, execCount, cancelOK, 
+                      hit, userDone, fop, ut, fobj, item >>
 
 mbflag == /\ pc["M"] = "mbflag"
           /\ shut = "free"
@@ -813,12 +839,12 @@ mbflag == /\ pc["M"] = "mbflag"
           /\ shutdownF' = TRUE
           /\ pc' = [pc EXCEPT !["M"] = "mbfail"]
           /\ UNCHANGED << killF, execAlive, refsDropped, globalExit, pending, 
-                          fut, workIds, running, sem, buf, pipe, cqClosed, rq, 
-                          wake, wkClosed, procs, alive, holding, exitLock, 
-                          announced, rlock, wlock, mgmt, shut, mgrStarted, mgr, 
-                          watch, ready, msg, cur, nStop, nSent, crashes, 
-                          timeouts, cancels, execCount, cancelOK, hit, 
-                          userDone, fop, ut, fobj, item >>
+                          fut, workIds, running, sem, buf, pipe, cqClosed, 
+                          rdClosed, rq, wake, wkClosed, procs, alive, holding, 
+                          exitLock, announced, rlock, wlock, mgmt, shut, 
+                          mgrStarted, mgr, watch, ready, msg, cur, nStop, 
+                          nSent, crashes, timeouts, cancels, execCount, 
+                          cancelOK, hit, userDone, fop, ut, fobj, item >>
 
 mbfail == /\ pc["M"] = "mbfail"
           /\ IF pending # {}
@@ -835,11 +861,11 @@ mbfail == /\ pc["M"] = "mbfail"
                      /\ UNCHANGED << pending, fut, mgr >>
           /\ UNCHANGED << shutdownF, brokenF, killF, execAlive, refsDropped, 
                           globalExit, workIds, running, sem, buf, pipe, 
-                          cqClosed, rq, wake, wkClosed, procs, alive, holding, 
-                          exitLock, announced, rlock, wlock, mgmt, shut, 
-                          mgrStarted, watch, ready, msg, cur, nStop, nSent, 
-                          crashes, timeouts, cancels, execCount, cancelOK, hit, 
-                          userDone, fop, ut, fobj, item >>
+                          cqClosed, rdClosed, rq, wake, wkClosed, procs, alive, 
+                          holding, exitLock, announced, rlock, wlock, mgmt, 
+                          shut, mgrStarted, watch, ready, msg, cur, nStop, 
+                          nSent, crashes, timeouts, cancels, execCount, 
+                          cancelOK, hit, userDone, fop, ut, fobj, item >>
 
 mbkill == /\ pc["M"] = "mbkill"
           /\ IF procs # {}
@@ -851,7 +877,12 @@ mbkill == /\ pc["M"] = "mbkill"
                           /\ alive' = [alive EXCEPT ![p] = IF Dead(p) THEN alive[p] ELSE "dead"]
                           /\ procs' = procs \ {p}
                      /\ pc' = [pc EXCEPT !["M"] = "mbkill"]
-                ELSE /\ pc' = [pc EXCEPT !["M"] = "mj1"]
+                     /\ UNCHANGED rdClosed
+                ELSE /\ IF CloseReaderOnKill
+                           THEN /\ rdClosed' = TRUE
+                           ELSE /\ TRUE
+                                /\ UNCHANGED rdClosed
+                     /\ pc' = [pc EXCEPT !["M"] = "mj1"]
                      /\ UNCHANGED << procs, alive, hit >>
           /\ UNCHANGED << shutdownF, brokenF, killF, execAlive, refsDropped, 
                           globalExit, pending, fut, workIds, running, sem, buf, 
@@ -870,20 +901,20 @@ mres == /\ pc["M"] = "mres"
                    /\ UNCHANGED << pending, fut >>
         /\ UNCHANGED << shutdownF, brokenF, killF, execAlive, refsDropped, 
                         globalExit, workIds, running, sem, buf, pipe, cqClosed, 
-                        rq, wake, wkClosed, procs, alive, holding, exitLock, 
-                        announced, rlock, wlock, mgmt, shut, mgrStarted, mgr, 
-                        watch, ready, msg, cur, nStop, nSent, crashes, 
-                        timeouts, cancels, execCount, cancelOK, hit, userDone, 
-                        fop, ut, fobj, item >>
+                        rdClosed, rq, wake, wkClosed, procs, alive, holding, 
+                        exitLock, announced, rlock, wlock, mgmt, shut, 
+                        mgrStarted, mgr, watch, ready, msg, cur, nStop, nSent, 
+                        crashes, timeouts, cancels, execCount, cancelOK, hit, 
+                        userDone, fop, ut, fobj, item >>
 
 mrunrm == /\ pc["M"] = "mrunrm"
           /\ running' = running \ {msg[2]}
           /\ pc' = [pc EXCEPT !["M"] = "msd"]
           /\ UNCHANGED << shutdownF, brokenF, killF, execAlive, refsDropped, 
                           globalExit, pending, fut, workIds, sem, buf, pipe, 
-                          cqClosed, rq, wake, wkClosed, procs, alive, holding, 
-                          exitLock, announced, rlock, wlock, mgmt, shut, 
-                          mgrStarted, mgr, watch, ready, msg, cur, nStop, 
+                          cqClosed, rdClosed, rq, wake, wkClosed, procs, alive, 
+                          holding, exitLock, announced, rlock, wlock, mgmt, 
+                          shut, mgrStarted, mgr, watch, ready, msg, cur, nStop, 
                           nSent, crashes, timeouts, cancels, execCount, 
                           cancelOK, hit, userDone, fop, ut, fobj, item >>
 
@@ -893,8 +924,8 @@ mpop == /\ pc["M"] = "mpop"
         /\ pc' = [pc EXCEPT !["M"] = "mrel"]
         /\ UNCHANGED << shutdownF, brokenF, killF, execAlive, refsDropped, 
                         globalExit, pending, fut, workIds, running, sem, buf, 
-                        pipe, cqClosed, rq, wake, wkClosed, alive, holding, 
-                        exitLock, announced, rlock, wlock, mgmt, shut, 
+                        pipe, cqClosed, rdClosed, rq, wake, wkClosed, alive, 
+                        holding, exitLock, announced, rlock, wlock, mgmt, shut, 
                         mgrStarted, mgr, watch, ready, msg, cur, nStop, nSent, 
                         crashes, timeouts, cancels, execCount, cancelOK, hit, 
                         userDone, fop, ut, fobj, item >>
@@ -904,8 +935,8 @@ mrel == /\ pc["M"] = "mrel"
         /\ pc' = [pc EXCEPT !["M"] = "mjoin"]
         /\ UNCHANGED << shutdownF, brokenF, killF, execAlive, refsDropped, 
                         globalExit, pending, fut, workIds, running, sem, buf, 
-                        pipe, cqClosed, rq, wake, wkClosed, procs, alive, 
-                        holding, announced, rlock, wlock, mgmt, shut, 
+                        pipe, cqClosed, rdClosed, rq, wake, wkClosed, procs, 
+                        alive, holding, announced, rlock, wlock, mgmt, shut, 
                         mgrStarted, mgr, watch, ready, msg, cur, nStop, nSent, 
                         crashes, timeouts, cancels, execCount, cancelOK, hit, 
                         userDone, fop, ut, fobj, item >>
@@ -915,10 +946,10 @@ mjoin == /\ pc["M"] = "mjoin"
          /\ pc' = [pc EXCEPT !["M"] = "mdecide"]
          /\ UNCHANGED << shutdownF, brokenF, killF, execAlive, refsDropped, 
                          globalExit, pending, fut, workIds, running, sem, buf, 
-                         pipe, cqClosed, rq, wake, wkClosed, procs, alive, 
-                         holding, exitLock, announced, rlock, wlock, mgmt, 
-                         shut, mgrStarted, mgr, watch, ready, msg, cur, nStop, 
-                         nSent, crashes, timeouts, cancels, execCount, 
+                         pipe, cqClosed, rdClosed, rq, wake, wkClosed, procs, 
+                         alive, holding, exitLock, announced, rlock, wlock, 
+                         mgmt, shut, mgrStarted, mgr, watch, ready, msg, cur, 
+                         nStop, nSent, crashes, timeouts, cancels, execCount, 
                          cancelOK, hit, userDone, fop, ut, fobj, item >>
 
 mdecide == /\ pc["M"] = "mdecide"
@@ -940,11 +971,11 @@ mdecide == /\ pc["M"] = "mdecide"
                       /\ UNCHANGED << mgr, hit >>
            /\ UNCHANGED << shutdownF, brokenF, killF, execAlive, refsDropped, 
                            globalExit, pending, fut, workIds, running, sem, 
-                           buf, pipe, cqClosed, rq, wake, wkClosed, procs, 
-                           alive, holding, exitLock, announced, rlock, wlock, 
-                           mgmt, shut, mgrStarted, watch, ready, msg, cur, 
-                           nStop, nSent, crashes, timeouts, cancels, execCount, 
-                           cancelOK, userDone, fop, ut, fobj, item >>
+                           buf, pipe, cqClosed, rdClosed, rq, wake, wkClosed, 
+                           procs, alive, holding, exitLock, announced, rlock, 
+                           wlock, mgmt, shut, mgrStarted, watch, ready, msg, 
+                           cur, nStop, nSent, crashes, timeouts, cancels, 
+                           execCount, cancelOK, userDone, fop, ut, fobj, item >>
 
 mrlock == /\ pc["M"] = "mrlock"
           /\ mgmt = "free"
@@ -952,9 +983,9 @@ mrlock == /\ pc["M"] = "mrlock"
           /\ pc' = [pc EXCEPT !["M"] = "mrspawn"]
           /\ UNCHANGED << shutdownF, brokenF, killF, execAlive, refsDropped, 
                           globalExit, pending, fut, workIds, running, sem, buf, 
-                          pipe, cqClosed, rq, wake, wkClosed, procs, alive, 
-                          holding, exitLock, announced, rlock, wlock, shut, 
-                          mgrStarted, mgr, watch, ready, msg, cur, nStop, 
+                          pipe, cqClosed, rdClosed, rq, wake, wkClosed, procs, 
+                          alive, holding, exitLock, announced, rlock, wlock, 
+                          shut, mgrStarted, mgr, watch, ready, msg, cur, nStop, 
                           nSent, crashes, timeouts, cancels, execCount, 
                           cancelOK, hit, userDone, fop, ut, fobj, item >>
 
@@ -968,10 +999,10 @@ mrspawn == /\ pc["M"] = "mrspawn"
                       /\ UNCHANGED << procs, alive >>
            /\ UNCHANGED << shutdownF, brokenF, killF, execAlive, refsDropped, 
                            globalExit, pending, fut, workIds, running, sem, 
-                           buf, pipe, cqClosed, rq, wake, wkClosed, holding, 
-                           exitLock, announced, rlock, wlock, mgmt, shut, 
-                           mgrStarted, mgr, watch, ready, msg, cur, nStop, 
-                           nSent, crashes, timeouts, cancels, execCount, 
+                           buf, pipe, cqClosed, rdClosed, rq, wake, wkClosed, 
+                           holding, exitLock, announced, rlock, wlock, mgmt, 
+                           shut, mgrStarted, mgr, watch, ready, msg, cur, 
+                           nStop, nSent, crashes, timeouts, cancels, execCount, 
                            cancelOK, hit, userDone, fop, ut, fobj, item >>
 
 mrunlock == /\ pc["M"] = "mrunlock"
@@ -979,10 +1010,10 @@ mrunlock == /\ pc["M"] = "mrunlock"
             /\ pc' = [pc EXCEPT !["M"] = "msd"]
             /\ UNCHANGED << shutdownF, brokenF, killF, execAlive, refsDropped, 
                             globalExit, pending, fut, workIds, running, sem, 
-                            buf, pipe, cqClosed, rq, wake, wkClosed, procs, 
-                            alive, holding, exitLock, announced, rlock, wlock, 
-                            shut, mgrStarted, mgr, watch, ready, msg, cur, 
-                            nStop, nSent, crashes, timeouts, cancels, 
+                            buf, pipe, cqClosed, rdClosed, rq, wake, wkClosed, 
+                            procs, alive, holding, exitLock, announced, rlock, 
+                            wlock, shut, mgrStarted, mgr, watch, ready, msg, 
+                            cur, nStop, nSent, crashes, timeouts, cancels, 
                             execCount, cancelOK, hit, userDone, fop, ut, fobj, 
                             item >>
 
@@ -992,11 +1023,11 @@ msd == /\ pc["M"] = "msd"
              ELSE /\ pc' = [pc EXCEPT !["M"] = "mloop"]
        /\ UNCHANGED << shutdownF, brokenF, killF, execAlive, refsDropped, 
                        globalExit, pending, fut, workIds, running, sem, buf, 
-                       pipe, cqClosed, rq, wake, wkClosed, procs, alive, 
-                       holding, exitLock, announced, rlock, wlock, mgmt, shut, 
-                       mgrStarted, mgr, watch, ready, msg, cur, nStop, nSent, 
-                       crashes, timeouts, cancels, execCount, cancelOK, hit, 
-                       userDone, fop, ut, fobj, item >>
+                       pipe, cqClosed, rdClosed, rq, wake, wkClosed, procs, 
+                       alive, holding, exitLock, announced, rlock, wlock, mgmt, 
+                       shut, mgrStarted, mgr, watch, ready, msg, cur, nStop, 
+                       nSent, crashes, timeouts, cancels, execCount, cancelOK, 
+                       hit, userDone, fop, ut, fobj, item >>
 
 msflag == /\ pc["M"] = "msflag"
           /\ shut = "free"
@@ -1004,9 +1035,9 @@ msflag == /\ pc["M"] = "msflag"
           /\ pc' = [pc EXCEPT !["M"] = "mkill"]
           /\ UNCHANGED << brokenF, killF, execAlive, refsDropped, globalExit, 
                           pending, fut, workIds, running, sem, buf, pipe, 
-                          cqClosed, rq, wake, wkClosed, procs, alive, holding, 
-                          exitLock, announced, rlock, wlock, mgmt, shut, 
-                          mgrStarted, mgr, watch, ready, msg, cur, nStop, 
+                          cqClosed, rdClosed, rq, wake, wkClosed, procs, alive, 
+                          holding, exitLock, announced, rlock, wlock, mgmt, 
+                          shut, mgrStarted, mgr, watch, ready, msg, cur, nStop, 
                           nSent, crashes, timeouts, cancels, execCount, 
                           cancelOK, hit, userDone, fop, ut, fobj, item >>
 
@@ -1016,10 +1047,10 @@ mkill == /\ pc["M"] = "mkill"
                ELSE /\ pc' = [pc EXCEPT !["M"] = "mspend"]
          /\ UNCHANGED << shutdownF, brokenF, killF, execAlive, refsDropped, 
                          globalExit, pending, fut, workIds, running, sem, buf, 
-                         pipe, cqClosed, rq, wake, wkClosed, procs, alive, 
-                         holding, exitLock, announced, rlock, wlock, mgmt, 
-                         shut, mgrStarted, mgr, watch, ready, msg, cur, nStop, 
-                         nSent, crashes, timeouts, cancels, execCount, 
+                         pipe, cqClosed, rdClosed, rq, wake, wkClosed, procs, 
+                         alive, holding, exitLock, announced, rlock, wlock, 
+                         mgmt, shut, mgrStarted, mgr, watch, ready, msg, cur, 
+                         nStop, nSent, crashes, timeouts, cancels, execCount, 
                          cancelOK, hit, userDone, fop, ut, fobj, item >>
 
 mkfail == /\ pc["M"] = "mkfail"
@@ -1037,11 +1068,11 @@ mkfail == /\ pc["M"] = "mkfail"
                      /\ UNCHANGED << pending, fut, mgr >>
           /\ UNCHANGED << shutdownF, brokenF, killF, execAlive, refsDropped, 
                           globalExit, workIds, running, sem, buf, pipe, 
-                          cqClosed, rq, wake, wkClosed, procs, alive, holding, 
-                          exitLock, announced, rlock, wlock, mgmt, shut, 
-                          mgrStarted, watch, ready, msg, cur, nStop, nSent, 
-                          crashes, timeouts, cancels, execCount, cancelOK, hit, 
-                          userDone, fop, ut, fobj, item >>
+                          cqClosed, rdClosed, rq, wake, wkClosed, procs, alive, 
+                          holding, exitLock, announced, rlock, wlock, mgmt, 
+                          shut, mgrStarted, watch, ready, msg, cur, nStop, 
+                          nSent, crashes, timeouts, cancels, execCount, 
+                          cancelOK, hit, userDone, fop, ut, fobj, item >>
 
 mkkill == /\ pc["M"] = "mkkill"
           /\ IF procs # {}
@@ -1053,7 +1084,12 @@ mkkill == /\ pc["M"] = "mkkill"
                           /\ alive' = [alive EXCEPT ![p] = IF Dead(p) THEN alive[p] ELSE "dead"]
                           /\ procs' = procs \ {p}
                      /\ pc' = [pc EXCEPT !["M"] = "mkkill"]
-                ELSE /\ pc' = [pc EXCEPT !["M"] = "mspend"]
+                     /\ UNCHANGED rdClosed
+                ELSE /\ IF CloseReaderOnKill
+                           THEN /\ rdClosed' = TRUE
+                           ELSE /\ TRUE
+                                /\ UNCHANGED rdClosed
+                     /\ pc' = [pc EXCEPT !["M"] = "mspend"]
                      /\ UNCHANGED << procs, alive, hit >>
           /\ UNCHANGED << shutdownF, brokenF, killF, execAlive, refsDropped, 
                           globalExit, pending, fut, workIds, running, sem, buf, 
@@ -1069,10 +1105,10 @@ mspend == /\ pc["M"] = "mspend"
                 ELSE /\ pc' = [pc EXCEPT !["M"] = "mloop"]
           /\ UNCHANGED << shutdownF, brokenF, killF, execAlive, refsDropped, 
                           globalExit, pending, fut, workIds, running, sem, buf, 
-                          pipe, cqClosed, rq, wake, wkClosed, procs, alive, 
-                          holding, exitLock, announced, rlock, wlock, mgmt, 
-                          shut, mgrStarted, mgr, watch, ready, msg, cur, nStop, 
-                          nSent, crashes, timeouts, cancels, execCount, 
+                          pipe, cqClosed, rdClosed, rq, wake, wkClosed, procs, 
+                          alive, holding, exitLock, announced, rlock, wlock, 
+                          mgmt, shut, mgrStarted, mgr, watch, ready, msg, cur, 
+                          nStop, nSent, crashes, timeouts, cancels, execCount, 
                           cancelOK, hit, userDone, fop, ut, fobj, item >>
 
 mj1 == /\ pc["M"] = "mj1"
@@ -1083,8 +1119,8 @@ mj1 == /\ pc["M"] = "mj1"
        /\ pc' = [pc EXCEPT !["M"] = "mj2"]
        /\ UNCHANGED << shutdownF, brokenF, killF, execAlive, refsDropped, 
                        globalExit, pending, fut, workIds, running, sem, buf, 
-                       pipe, cqClosed, rq, wake, wkClosed, procs, alive, 
-                       holding, announced, rlock, wlock, mgmt, shut, 
+                       pipe, cqClosed, rdClosed, rq, wake, wkClosed, procs, 
+                       alive, holding, announced, rlock, wlock, mgmt, shut, 
                        mgrStarted, mgr, watch, ready, msg, cur, crashes, 
                        timeouts, cancels, execCount, cancelOK, hit, userDone, 
                        fop, ut, fobj, item >>
@@ -1103,8 +1139,8 @@ mj2 == /\ pc["M"] = "mj2"
                   /\ UNCHANGED << sem, buf, nSent >>
        /\ UNCHANGED << shutdownF, brokenF, killF, execAlive, refsDropped, 
                        globalExit, pending, fut, workIds, running, pipe, 
-                       cqClosed, rq, wake, wkClosed, procs, alive, holding, 
-                       exitLock, announced, rlock, wlock, mgmt, shut, 
+                       cqClosed, rdClosed, rq, wake, wkClosed, procs, alive, 
+                       holding, exitLock, announced, rlock, wlock, mgmt, shut, 
                        mgrStarted, mgr, watch, ready, msg, cur, nStop, crashes, 
                        timeouts, cancels, execCount, cancelOK, hit, userDone, 
                        fop, ut, fobj, item >>
@@ -1114,8 +1150,8 @@ mj3 == /\ pc["M"] = "mj3"
        /\ pc' = [pc EXCEPT !["M"] = "mj4"]
        /\ UNCHANGED << shutdownF, brokenF, killF, execAlive, refsDropped, 
                        globalExit, pending, fut, workIds, running, sem, buf, 
-                       pipe, rq, wake, wkClosed, procs, alive, holding, 
-                       exitLock, announced, rlock, wlock, mgmt, shut, 
+                       pipe, rdClosed, rq, wake, wkClosed, procs, alive, 
+                       holding, exitLock, announced, rlock, wlock, mgmt, shut, 
                        mgrStarted, mgr, watch, ready, msg, cur, nStop, nSent, 
                        crashes, timeouts, cancels, execCount, cancelOK, hit, 
                        userDone, fop, ut, fobj, item >>
@@ -1126,8 +1162,8 @@ mj4 == /\ pc["M"] = "mj4"
        /\ pc' = [pc EXCEPT !["M"] = "mj5l"]
        /\ UNCHANGED << shutdownF, brokenF, killF, execAlive, refsDropped, 
                        globalExit, pending, fut, workIds, running, sem, buf, 
-                       pipe, cqClosed, rq, wake, procs, alive, holding, 
-                       exitLock, announced, rlock, wlock, mgmt, shut, 
+                       pipe, cqClosed, rdClosed, rq, wake, procs, alive, 
+                       holding, exitLock, announced, rlock, wlock, mgmt, shut, 
                        mgrStarted, mgr, watch, ready, msg, cur, nStop, nSent, 
                        crashes, timeouts, cancels, execCount, cancelOK, hit, 
                        userDone, fop, ut, fobj, item >>
@@ -1138,26 +1174,35 @@ mj5l == /\ pc["M"] = "mj5l"
         /\ pc' = [pc EXCEPT !["M"] = "mj5"]
         /\ UNCHANGED << shutdownF, brokenF, killF, execAlive, refsDropped, 
                         globalExit, pending, fut, workIds, running, sem, buf, 
-                        pipe, cqClosed, rq, wake, wkClosed, procs, alive, 
-                        holding, exitLock, announced, rlock, wlock, shut, 
-                        mgrStarted, mgr, watch, ready, msg, cur, nStop, nSent, 
-                        crashes, timeouts, cancels, execCount, cancelOK, hit, 
-                        userDone, fop, ut, fobj, item >>
+                        pipe, cqClosed, rdClosed, rq, wake, wkClosed, procs, 
+                        alive, holding, exitLock, announced, rlock, wlock, 
+                        shut, mgrStarted, mgr, watch, ready, msg, cur, nStop, 
+                        nSent, crashes, timeouts, cancels, execCount, cancelOK, 
+                        hit, userDone, fop, ut, fobj, item >>
 
 mj5 == /\ pc["M"] = "mj5"
        /\ IF procs # {}
-             THEN /\ \E p \in procs:
-                       /\ Dead(p) \/ (\A q \in procs : ~Dead(q))
-                       /\ IF ~Dead(p)
-                             THEN /\ FALSE
-                                  /\ procs' = procs
-                             ELSE /\ procs' = procs \ {p}
+             THEN /\ IF JoinWatches
+                        THEN /\ \E p \in procs : Dead(p)
+                             /\ \E p \in {q \in procs : Dead(q)}:
+                                  IF alive[p] = "dead"
+                                     THEN /\ alive' = [q \in Pids |-> IF q \in procs /\ Alive(q) THEN "dead" ELSE alive[q]]
+                                          /\ procs' = {}
+                                     ELSE /\ procs' = procs \ {p}
+                                          /\ alive' = alive
+                        ELSE /\ \E p \in procs:
+                                  /\ Dead(p) \/ (\A q \in procs : ~Dead(q))
+                                  /\ IF ~Dead(p)
+                                        THEN /\ FALSE
+                                             /\ procs' = procs
+                                        ELSE /\ procs' = procs \ {p}
+                             /\ alive' = alive
                   /\ pc' = [pc EXCEPT !["M"] = "mj5"]
              ELSE /\ pc' = [pc EXCEPT !["M"] = "mj6"]
-                  /\ procs' = procs
+                  /\ UNCHANGED << procs, alive >>
        /\ UNCHANGED << shutdownF, brokenF, killF, execAlive, refsDropped, 
                        globalExit, pending, fut, workIds, running, sem, buf, 
-                       pipe, cqClosed, rq, wake, wkClosed, alive, holding, 
+                       pipe, cqClosed, rdClosed, rq, wake, wkClosed, holding, 
                        exitLock, announced, rlock, wlock, mgmt, shut, 
                        mgrStarted, mgr, watch, ready, msg, cur, nStop, nSent, 
                        crashes, timeouts, cancels, execCount, cancelOK, hit, 
@@ -1169,8 +1214,8 @@ mj6 == /\ pc["M"] = "mj6"
        /\ pc' = [pc EXCEPT !["M"] = "mdone"]
        /\ UNCHANGED << shutdownF, brokenF, killF, execAlive, refsDropped, 
                        globalExit, pending, fut, workIds, running, sem, buf, 
-                       pipe, cqClosed, rq, wake, wkClosed, procs, alive, 
-                       holding, exitLock, announced, rlock, wlock, shut, 
+                       pipe, cqClosed, rdClosed, rq, wake, wkClosed, procs, 
+                       alive, holding, exitLock, announced, rlock, wlock, shut, 
                        mgrStarted, watch, ready, msg, cur, nStop, nSent, 
                        crashes, timeouts, cancels, execCount, cancelOK, hit, 
                        userDone, fop, ut, fobj, item >>
@@ -1180,10 +1225,10 @@ mdone == /\ pc["M"] = "mdone"
          /\ pc' = [pc EXCEPT !["M"] = "Done"]
          /\ UNCHANGED << shutdownF, brokenF, killF, execAlive, refsDropped, 
                          globalExit, pending, fut, workIds, running, sem, buf, 
-                         pipe, cqClosed, rq, wake, wkClosed, procs, alive, 
-                         holding, exitLock, announced, rlock, wlock, mgmt, 
-                         shut, mgrStarted, mgr, watch, ready, msg, cur, nStop, 
-                         nSent, crashes, timeouts, cancels, execCount, 
+                         pipe, cqClosed, rdClosed, rq, wake, wkClosed, procs, 
+                         alive, holding, exitLock, announced, rlock, wlock, 
+                         mgmt, shut, mgrStarted, mgr, watch, ready, msg, cur, 
+                         nStop, nSent, crashes, timeouts, cancels, execCount, 
                          cancelOK, hit, userDone, fop, ut, fobj, item >>
 
 manager == m0 \/ mloop \/ mfull \/ mtake \/ mrun \/ mradd \/ mput \/ msnap
@@ -1197,11 +1242,11 @@ f0 == /\ pc["F"] = "f0"
       /\ pc' = [pc EXCEPT !["F"] = "ftake"]
       /\ UNCHANGED << shutdownF, brokenF, killF, execAlive, refsDropped, 
                       globalExit, pending, fut, workIds, running, sem, buf, 
-                      pipe, cqClosed, rq, wake, wkClosed, procs, alive, 
-                      holding, exitLock, announced, rlock, wlock, mgmt, shut, 
-                      mgrStarted, mgr, watch, ready, msg, cur, nStop, nSent, 
-                      crashes, timeouts, cancels, execCount, cancelOK, hit, 
-                      userDone, fop, ut, fobj, item >>
+                      pipe, cqClosed, rdClosed, rq, wake, wkClosed, procs, 
+                      alive, holding, exitLock, announced, rlock, wlock, mgmt, 
+                      shut, mgrStarted, mgr, watch, ready, msg, cur, nStop, 
+                      nSent, crashes, timeouts, cancels, execCount, cancelOK, 
+                      hit, userDone, fop, ut, fobj, item >>
 
 ftake == /\ pc["F"] = "ftake"
          /\ buf # <<>>
@@ -1210,14 +1255,34 @@ ftake == /\ pc["F"] = "ftake"
          /\ pc' = [pc EXCEPT !["F"] = "fsend"]
          /\ UNCHANGED << shutdownF, brokenF, killF, execAlive, refsDropped, 
                          globalExit, pending, fut, workIds, running, sem, pipe, 
-                         cqClosed, rq, wake, wkClosed, procs, alive, holding, 
-                         exitLock, announced, rlock, wlock, mgmt, shut, 
-                         mgrStarted, mgr, watch, ready, msg, cur, nStop, nSent, 
-                         crashes, timeouts, cancels, execCount, cancelOK, hit, 
-                         userDone, fop, ut, item >>
+                         cqClosed, rdClosed, rq, wake, wkClosed, procs, alive, 
+                         holding, exitLock, announced, rlock, wlock, mgmt, 
+                         shut, mgrStarted, mgr, watch, ready, msg, cur, nStop, 
+                         nSent, crashes, timeouts, cancels, execCount, 
+                         cancelOK, hit, userDone, fop, ut, item >>
 
 fsend == /\ pc["F"] = "fsend"
          /\ IF fobj # Sentinel /\ Kind[fobj] = "bad_arg"
+               THEN /\ sem' = sem + 1
+                    /\ pc' = [pc EXCEPT !["F"] = "ferrp"]
+                    /\ pipe' = pipe
+               ELSE /\ IF fobj # Sentinel /\ Kind[fobj] = "huge"
+                          THEN /\ pc' = [pc EXCEPT !["F"] = "fhuge"]
+                               /\ pipe' = pipe
+                          ELSE /\ pipe' = Append(pipe, fobj)
+                               /\ pc' = [pc EXCEPT !["F"] = "f0"]
+                    /\ sem' = sem
+         /\ UNCHANGED << shutdownF, brokenF, killF, execAlive, refsDropped, 
+                         globalExit, pending, fut, workIds, running, buf, 
+                         cqClosed, rdClosed, rq, wake, wkClosed, procs, alive, 
+                         holding, exitLock, announced, rlock, wlock, mgmt, 
+                         shut, mgrStarted, mgr, watch, ready, msg, cur, nStop, 
+                         nSent, crashes, timeouts, cancels, execCount, 
+                         cancelOK, hit, userDone, fop, ut, fobj, item >>
+
+fhuge == /\ pc["F"] = "fhuge"
+         /\ (pipe = <<>> /\ \E p \in Pids : Alive(p) /\ pc[p] = "wpoll") \/ (rdClosed /\ \A p \in Pids : ~Alive(p))
+         /\ IF rdClosed /\ \A p \in Pids : ~Alive(p)
                THEN /\ sem' = sem + 1
                     /\ pc' = [pc EXCEPT !["F"] = "ferrp"]
                     /\ pipe' = pipe
@@ -1226,11 +1291,11 @@ fsend == /\ pc["F"] = "fsend"
                     /\ sem' = sem
          /\ UNCHANGED << shutdownF, brokenF, killF, execAlive, refsDropped, 
                          globalExit, pending, fut, workIds, running, buf, 
-                         cqClosed, rq, wake, wkClosed, procs, alive, holding, 
-                         exitLock, announced, rlock, wlock, mgmt, shut, 
-                         mgrStarted, mgr, watch, ready, msg, cur, nStop, nSent, 
-                         crashes, timeouts, cancels, execCount, cancelOK, hit, 
-                         userDone, fop, ut, fobj, item >>
+                         cqClosed, rdClosed, rq, wake, wkClosed, procs, alive, 
+                         holding, exitLock, announced, rlock, wlock, mgmt, 
+                         shut, mgrStarted, mgr, watch, ready, msg, cur, nStop, 
+                         nSent, crashes, timeouts, cancels, execCount, 
+                         cancelOK, hit, userDone, fop, ut, fobj, item >>
 
 ferrp == /\ pc["F"] = "ferrp"
          /\ IF fobj \in pending
@@ -1241,22 +1306,22 @@ ferrp == /\ pc["F"] = "ferrp"
          /\ pc' = [pc EXCEPT !["F"] = "ferrr"]
          /\ UNCHANGED << shutdownF, brokenF, killF, execAlive, refsDropped, 
                          globalExit, workIds, running, sem, buf, pipe, 
-                         cqClosed, rq, wake, wkClosed, procs, alive, holding, 
-                         exitLock, announced, rlock, wlock, mgmt, shut, 
-                         mgrStarted, mgr, watch, ready, msg, cur, nStop, nSent, 
-                         crashes, timeouts, cancels, execCount, cancelOK, hit, 
-                         userDone, fop, ut, fobj, item >>
+                         cqClosed, rdClosed, rq, wake, wkClosed, procs, alive, 
+                         holding, exitLock, announced, rlock, wlock, mgmt, 
+                         shut, mgrStarted, mgr, watch, ready, msg, cur, nStop, 
+                         nSent, crashes, timeouts, cancels, execCount, 
+                         cancelOK, hit, userDone, fop, ut, fobj, item >>
 
 ferrr == /\ pc["F"] = "ferrr"
          /\ running' = running \ {fobj}
          /\ pc' = [pc EXCEPT !["F"] = "ferrw"]
          /\ UNCHANGED << shutdownF, brokenF, killF, execAlive, refsDropped, 
                          globalExit, pending, fut, workIds, sem, buf, pipe, 
-                         cqClosed, rq, wake, wkClosed, procs, alive, holding, 
-                         exitLock, announced, rlock, wlock, mgmt, shut, 
-                         mgrStarted, mgr, watch, ready, msg, cur, nStop, nSent, 
-                         crashes, timeouts, cancels, execCount, cancelOK, hit, 
-                         userDone, fop, ut, fobj, item >>
+                         cqClosed, rdClosed, rq, wake, wkClosed, procs, alive, 
+                         holding, exitLock, announced, rlock, wlock, mgmt, 
+                         shut, mgrStarted, mgr, watch, ready, msg, cur, nStop, 
+                         nSent, crashes, timeouts, cancels, execCount, 
+                         cancelOK, hit, userDone, fop, ut, fobj, item >>
 
 ferrw == /\ pc["F"] = "ferrw"
          /\ shut = "free"
@@ -1267,23 +1332,23 @@ ferrw == /\ pc["F"] = "ferrw"
          /\ pc' = [pc EXCEPT !["F"] = "f0"]
          /\ UNCHANGED << shutdownF, brokenF, killF, execAlive, refsDropped, 
                          globalExit, pending, fut, workIds, running, sem, buf, 
-                         pipe, cqClosed, rq, wkClosed, procs, alive, holding, 
-                         exitLock, announced, rlock, wlock, mgmt, shut, 
-                         mgrStarted, mgr, watch, ready, msg, cur, nStop, nSent, 
-                         crashes, timeouts, cancels, execCount, cancelOK, hit, 
-                         userDone, fop, ut, fobj, item >>
+                         pipe, cqClosed, rdClosed, rq, wkClosed, procs, alive, 
+                         holding, exitLock, announced, rlock, wlock, mgmt, 
+                         shut, mgrStarted, mgr, watch, ready, msg, cur, nStop, 
+                         nSent, crashes, timeouts, cancels, execCount, 
+                         cancelOK, hit, userDone, fop, ut, fobj, item >>
 
-feeder == f0 \/ ftake \/ fsend \/ ferrp \/ ferrr \/ ferrw
+feeder == f0 \/ ftake \/ fsend \/ fhuge \/ ferrp \/ ferrr \/ ferrw
 
 w0(self) == /\ pc[self] = "w0"
             /\ Alive(self)
             /\ pc' = [pc EXCEPT ![self] = "winit"]
             /\ UNCHANGED << shutdownF, brokenF, killF, execAlive, refsDropped, 
                             globalExit, pending, fut, workIds, running, sem, 
-                            buf, pipe, cqClosed, rq, wake, wkClosed, procs, 
-                            alive, holding, exitLock, announced, rlock, wlock, 
-                            mgmt, shut, mgrStarted, mgr, watch, ready, msg, 
-                            cur, nStop, nSent, crashes, timeouts, cancels, 
+                            buf, pipe, cqClosed, rdClosed, rq, wake, wkClosed, 
+                            procs, alive, holding, exitLock, announced, rlock, 
+                            wlock, mgmt, shut, mgrStarted, mgr, watch, ready, 
+                            msg, cur, nStop, nSent, crashes, timeouts, cancels, 
                             execCount, cancelOK, hit, userDone, fop, ut, fobj, 
                             item >>
 
@@ -1296,12 +1361,12 @@ winit(self) == /\ pc[self] = "winit"
                           /\ alive' = alive
                /\ UNCHANGED << shutdownF, brokenF, killF, execAlive, 
                                refsDropped, globalExit, pending, fut, workIds, 
-                               running, sem, buf, pipe, cqClosed, rq, wake, 
-                               wkClosed, procs, holding, exitLock, announced, 
-                               rlock, wlock, mgmt, shut, mgrStarted, mgr, 
-                               watch, ready, msg, cur, nStop, nSent, crashes, 
-                               timeouts, cancels, execCount, cancelOK, hit, 
-                               userDone, fop, ut, fobj, item >>
+                               running, sem, buf, pipe, cqClosed, rdClosed, rq, 
+                               wake, wkClosed, procs, holding, exitLock, 
+                               announced, rlock, wlock, mgmt, shut, mgrStarted, 
+                               mgr, watch, ready, msg, cur, nStop, nSent, 
+                               crashes, timeouts, cancels, execCount, cancelOK, 
+                               hit, userDone, fop, ut, fobj, item >>
 
 wrl(self) == /\ pc[self] = "wrl"
              /\ Alive(self)
@@ -1315,10 +1380,10 @@ wrl(self) == /\ pc[self] = "wrl"
                    /\ rlock' = rlock
              /\ UNCHANGED << shutdownF, brokenF, killF, execAlive, refsDropped, 
                              globalExit, pending, fut, workIds, running, sem, 
-                             buf, pipe, cqClosed, rq, wake, wkClosed, procs, 
-                             alive, holding, exitLock, announced, wlock, mgmt, 
-                             shut, mgrStarted, mgr, watch, ready, msg, cur, 
-                             nStop, nSent, crashes, cancels, execCount, 
+                             buf, pipe, cqClosed, rdClosed, rq, wake, wkClosed, 
+                             procs, alive, holding, exitLock, announced, wlock, 
+                             mgmt, shut, mgrStarted, mgr, watch, ready, msg, 
+                             cur, nStop, nSent, crashes, cancels, execCount, 
                              cancelOK, hit, userDone, fop, ut, fobj, item >>
 
 wpoll(self) == /\ pc[self] = "wpoll"
@@ -1331,8 +1396,8 @@ wpoll(self) == /\ pc[self] = "wpoll"
                      /\ pc' = [pc EXCEPT ![self] = "wrlt"]
                /\ UNCHANGED << shutdownF, brokenF, killF, execAlive, 
                                refsDropped, globalExit, pending, fut, workIds, 
-                               running, sem, buf, pipe, cqClosed, rq, wake, 
-                               wkClosed, procs, alive, holding, exitLock, 
+                               running, sem, buf, pipe, cqClosed, rdClosed, rq, 
+                               wake, wkClosed, procs, alive, holding, exitLock, 
                                announced, rlock, wlock, mgmt, shut, mgrStarted, 
                                mgr, watch, ready, msg, cur, nStop, nSent, 
                                crashes, cancels, execCount, cancelOK, hit, 
@@ -1344,8 +1409,8 @@ wrlt(self) == /\ pc[self] = "wrlt"
               /\ pc' = [pc EXCEPT ![self] = "wtmo"]
               /\ UNCHANGED << shutdownF, brokenF, killF, execAlive, 
                               refsDropped, globalExit, pending, fut, workIds, 
-                              running, sem, buf, pipe, cqClosed, rq, wake, 
-                              wkClosed, procs, alive, holding, exitLock, 
+                              running, sem, buf, pipe, cqClosed, rdClosed, rq, 
+                              wake, wkClosed, procs, alive, holding, exitLock, 
                               announced, wlock, mgmt, shut, mgrStarted, mgr, 
                               watch, ready, msg, cur, nStop, nSent, crashes, 
                               timeouts, cancels, execCount, cancelOK, hit, 
@@ -1358,12 +1423,12 @@ wrecv(self) == /\ pc[self] = "wrecv"
                /\ pc' = [pc EXCEPT ![self] = "wsem"]
                /\ UNCHANGED << shutdownF, brokenF, killF, execAlive, 
                                refsDropped, globalExit, pending, fut, workIds, 
-                               running, sem, buf, cqClosed, rq, wake, wkClosed, 
-                               procs, alive, holding, exitLock, announced, 
-                               rlock, wlock, mgmt, shut, mgrStarted, mgr, 
-                               watch, ready, msg, cur, nStop, nSent, crashes, 
-                               timeouts, cancels, execCount, cancelOK, hit, 
-                               userDone, fop, ut, fobj >>
+                               running, sem, buf, cqClosed, rdClosed, rq, wake, 
+                               wkClosed, procs, alive, holding, exitLock, 
+                               announced, rlock, wlock, mgmt, shut, mgrStarted, 
+                               mgr, watch, ready, msg, cur, nStop, nSent, 
+                               crashes, timeouts, cancels, execCount, cancelOK, 
+                               hit, userDone, fop, ut, fobj >>
 
 wsem(self) == /\ pc[self] = "wsem"
               /\ Alive(self)
@@ -1371,12 +1436,12 @@ wsem(self) == /\ pc[self] = "wsem"
               /\ pc' = [pc EXCEPT ![self] = "wrlrel"]
               /\ UNCHANGED << shutdownF, brokenF, killF, execAlive, 
                               refsDropped, globalExit, pending, fut, workIds, 
-                              running, buf, pipe, cqClosed, rq, wake, wkClosed, 
-                              procs, alive, holding, exitLock, announced, 
-                              rlock, wlock, mgmt, shut, mgrStarted, mgr, watch, 
-                              ready, msg, cur, nStop, nSent, crashes, timeouts, 
-                              cancels, execCount, cancelOK, hit, userDone, fop, 
-                              ut, fobj, item >>
+                              running, buf, pipe, cqClosed, rdClosed, rq, wake, 
+                              wkClosed, procs, alive, holding, exitLock, 
+                              announced, rlock, wlock, mgmt, shut, mgrStarted, 
+                              mgr, watch, ready, msg, cur, nStop, nSent, 
+                              crashes, timeouts, cancels, execCount, cancelOK, 
+                              hit, userDone, fop, ut, fobj, item >>
 
 wrlrel(self) == /\ pc[self] = "wrlrel"
                 /\ Alive(self)
@@ -1386,12 +1451,12 @@ wrlrel(self) == /\ pc[self] = "wrlrel"
                       ELSE /\ pc' = [pc EXCEPT ![self] = "wunl"]
                 /\ UNCHANGED << shutdownF, brokenF, killF, execAlive, 
                                 refsDropped, globalExit, pending, fut, workIds, 
-                                running, sem, buf, pipe, cqClosed, rq, wake, 
-                                wkClosed, procs, alive, holding, exitLock, 
-                                announced, wlock, mgmt, shut, mgrStarted, mgr, 
-                                watch, ready, msg, cur, nStop, nSent, crashes, 
-                                timeouts, cancels, execCount, cancelOK, hit, 
-                                userDone, fop, ut, fobj, item >>
+                                running, sem, buf, pipe, cqClosed, rdClosed, 
+                                rq, wake, wkClosed, procs, alive, holding, 
+                                exitLock, announced, wlock, mgmt, shut, 
+                                mgrStarted, mgr, watch, ready, msg, cur, nStop, 
+                                nSent, crashes, timeouts, cancels, execCount, 
+                                cancelOK, hit, userDone, fop, ut, fobj, item >>
 
 wunl(self) == /\ pc[self] = "wunl"
               /\ Alive(self)
@@ -1403,12 +1468,12 @@ wunl(self) == /\ pc[self] = "wunl"
                          /\ UNCHANGED << rq, alive >>
               /\ UNCHANGED << shutdownF, brokenF, killF, execAlive, 
                               refsDropped, globalExit, pending, fut, workIds, 
-                              running, sem, buf, pipe, cqClosed, wake, 
-                              wkClosed, procs, holding, exitLock, announced, 
-                              rlock, wlock, mgmt, shut, mgrStarted, mgr, watch, 
-                              ready, msg, cur, nStop, nSent, crashes, timeouts, 
-                              cancels, execCount, cancelOK, hit, userDone, fop, 
-                              ut, fobj, item >>
+                              running, sem, buf, pipe, cqClosed, rdClosed, 
+                              wake, wkClosed, procs, holding, exitLock, 
+                              announced, rlock, wlock, mgmt, shut, mgrStarted, 
+                              mgr, watch, ready, msg, cur, nStop, nSent, 
+                              crashes, timeouts, cancels, execCount, cancelOK, 
+                              hit, userDone, fop, ut, fobj, item >>
 
 wrun(self) == /\ pc[self] = "wrun"
               /\ Alive(self)
@@ -1417,12 +1482,12 @@ wrun(self) == /\ pc[self] = "wrun"
               /\ pc' = [pc EXCEPT ![self] = "wbody"]
               /\ UNCHANGED << shutdownF, brokenF, killF, execAlive, 
                               refsDropped, globalExit, pending, fut, workIds, 
-                              running, sem, buf, pipe, cqClosed, rq, wake, 
-                              wkClosed, procs, alive, exitLock, announced, 
-                              rlock, wlock, mgmt, shut, mgrStarted, mgr, watch, 
-                              ready, msg, cur, nStop, nSent, crashes, timeouts, 
-                              cancels, cancelOK, hit, userDone, fop, ut, fobj, 
-                              item >>
+                              running, sem, buf, pipe, cqClosed, rdClosed, rq, 
+                              wake, wkClosed, procs, alive, exitLock, 
+                              announced, rlock, wlock, mgmt, shut, mgrStarted, 
+                              mgr, watch, ready, msg, cur, nStop, nSent, 
+                              crashes, timeouts, cancels, cancelOK, hit, 
+                              userDone, fop, ut, fobj, item >>
 
 wbody(self) == /\ pc[self] = "wbody"
                /\ Alive(self) /\ Kind[item[self]] # "long"
@@ -1433,12 +1498,12 @@ wbody(self) == /\ pc[self] = "wbody"
                           /\ alive' = alive
                /\ UNCHANGED << shutdownF, brokenF, killF, execAlive, 
                                refsDropped, globalExit, pending, fut, workIds, 
-                               running, sem, buf, pipe, cqClosed, rq, wake, 
-                               wkClosed, procs, holding, exitLock, announced, 
-                               rlock, wlock, mgmt, shut, mgrStarted, mgr, 
-                               watch, ready, msg, cur, nStop, nSent, crashes, 
-                               timeouts, cancels, execCount, cancelOK, hit, 
-                               userDone, fop, ut, fobj, item >>
+                               running, sem, buf, pipe, cqClosed, rdClosed, rq, 
+                               wake, wkClosed, procs, holding, exitLock, 
+                               announced, rlock, wlock, mgmt, shut, mgrStarted, 
+                               mgr, watch, ready, msg, cur, nStop, nSent, 
+                               crashes, timeouts, cancels, execCount, cancelOK, 
+                               hit, userDone, fop, ut, fobj, item >>
 
 wwl(self) == /\ pc[self] = "wwl"
              /\ Alive(self) /\ wlock = "free"
@@ -1446,10 +1511,10 @@ wwl(self) == /\ pc[self] = "wwl"
              /\ pc' = [pc EXCEPT ![self] = "wsend"]
              /\ UNCHANGED << shutdownF, brokenF, killF, execAlive, refsDropped, 
                              globalExit, pending, fut, workIds, running, sem, 
-                             buf, pipe, cqClosed, rq, wake, wkClosed, procs, 
-                             alive, holding, exitLock, announced, rlock, mgmt, 
-                             shut, mgrStarted, mgr, watch, ready, msg, cur, 
-                             nStop, nSent, crashes, timeouts, cancels, 
+                             buf, pipe, cqClosed, rdClosed, rq, wake, wkClosed, 
+                             procs, alive, holding, exitLock, announced, rlock, 
+                             mgmt, shut, mgrStarted, mgr, watch, ready, msg, 
+                             cur, nStop, nSent, crashes, timeouts, cancels, 
                              execCount, cancelOK, hit, userDone, fop, ut, fobj, 
                              item >>
 
@@ -1461,8 +1526,8 @@ wsend(self) == /\ pc[self] = "wsend"
                /\ pc' = [pc EXCEPT ![self] = "wsend2"]
                /\ UNCHANGED << shutdownF, brokenF, killF, execAlive, 
                                refsDropped, globalExit, pending, fut, workIds, 
-                               running, sem, buf, pipe, cqClosed, wake, 
-                               wkClosed, procs, alive, holding, exitLock, 
+                               running, sem, buf, pipe, cqClosed, rdClosed, 
+                               wake, wkClosed, procs, alive, holding, exitLock, 
                                announced, rlock, wlock, mgmt, shut, mgrStarted, 
                                mgr, watch, ready, msg, cur, nStop, nSent, 
                                crashes, timeouts, cancels, execCount, cancelOK, 
@@ -1478,12 +1543,12 @@ wsend2(self) == /\ pc[self] = "wsend2"
                 /\ pc' = [pc EXCEPT ![self] = "wwrel"]
                 /\ UNCHANGED << shutdownF, brokenF, killF, execAlive, 
                                 refsDropped, globalExit, pending, fut, workIds, 
-                                running, sem, buf, pipe, cqClosed, wake, 
-                                wkClosed, procs, alive, exitLock, announced, 
-                                rlock, wlock, mgmt, shut, mgrStarted, mgr, 
-                                watch, ready, msg, cur, nStop, nSent, crashes, 
-                                timeouts, cancels, execCount, cancelOK, hit, 
-                                userDone, fop, ut, fobj, item >>
+                                running, sem, buf, pipe, cqClosed, rdClosed, 
+                                wake, wkClosed, procs, alive, exitLock, 
+                                announced, rlock, wlock, mgmt, shut, 
+                                mgrStarted, mgr, watch, ready, msg, cur, nStop, 
+                                nSent, crashes, timeouts, cancels, execCount, 
+                                cancelOK, hit, userDone, fop, ut, fobj, item >>
 
 wwrel(self) == /\ pc[self] = "wwrel"
                /\ Alive(self)
@@ -1491,8 +1556,8 @@ wwrel(self) == /\ pc[self] = "wwrel"
                /\ pc' = [pc EXCEPT ![self] = "wrl"]
                /\ UNCHANGED << shutdownF, brokenF, killF, execAlive, 
                                refsDropped, globalExit, pending, fut, workIds, 
-                               running, sem, buf, pipe, cqClosed, rq, wake, 
-                               wkClosed, procs, alive, holding, exitLock, 
+                               running, sem, buf, pipe, cqClosed, rdClosed, rq, 
+                               wake, wkClosed, procs, alive, holding, exitLock, 
                                announced, rlock, mgmt, shut, mgrStarted, mgr, 
                                watch, ready, msg, cur, nStop, nSent, crashes, 
                                timeouts, cancels, execCount, cancelOK, hit, 
@@ -1507,8 +1572,8 @@ wtmo(self) == /\ pc[self] = "wtmo"
                          /\ mgmt' = mgmt
               /\ UNCHANGED << shutdownF, brokenF, killF, execAlive, 
                               refsDropped, globalExit, pending, fut, workIds, 
-                              running, sem, buf, pipe, cqClosed, rq, wake, 
-                              wkClosed, procs, alive, holding, exitLock, 
+                              running, sem, buf, pipe, cqClosed, rdClosed, rq, 
+                              wake, wkClosed, procs, alive, holding, exitLock, 
                               announced, rlock, wlock, shut, mgrStarted, mgr, 
                               watch, ready, msg, cur, nStop, nSent, crashes, 
                               timeouts, cancels, execCount, cancelOK, hit, 
@@ -1520,8 +1585,8 @@ wmrel(self) == /\ pc[self] = "wmrel"
                /\ pc' = [pc EXCEPT ![self] = "wann"]
                /\ UNCHANGED << shutdownF, brokenF, killF, execAlive, 
                                refsDropped, globalExit, pending, fut, workIds, 
-                               running, sem, buf, pipe, cqClosed, rq, wake, 
-                               wkClosed, procs, alive, holding, exitLock, 
+                               running, sem, buf, pipe, cqClosed, rdClosed, rq, 
+                               wake, wkClosed, procs, alive, holding, exitLock, 
                                announced, rlock, wlock, shut, mgrStarted, mgr, 
                                watch, ready, msg, cur, nStop, nSent, crashes, 
                                timeouts, cancels, execCount, cancelOK, hit, 
@@ -1533,8 +1598,8 @@ wann(self) == /\ pc[self] = "wann"
               /\ pc' = [pc EXCEPT ![self] = "wann2"]
               /\ UNCHANGED << shutdownF, brokenF, killF, execAlive, 
                               refsDropped, globalExit, pending, fut, workIds, 
-                              running, sem, buf, pipe, cqClosed, rq, wake, 
-                              wkClosed, procs, alive, holding, exitLock, 
+                              running, sem, buf, pipe, cqClosed, rdClosed, rq, 
+                              wake, wkClosed, procs, alive, holding, exitLock, 
                               announced, rlock, mgmt, shut, mgrStarted, mgr, 
                               watch, ready, msg, cur, nStop, nSent, crashes, 
                               timeouts, cancels, execCount, cancelOK, hit, 
@@ -1547,8 +1612,8 @@ wann2(self) == /\ pc[self] = "wann2"
                /\ pc' = [pc EXCEPT ![self] = "wann3"]
                /\ UNCHANGED << shutdownF, brokenF, killF, execAlive, 
                                refsDropped, globalExit, pending, fut, workIds, 
-                               running, sem, buf, pipe, cqClosed, wake, 
-                               wkClosed, procs, alive, holding, exitLock, 
+                               running, sem, buf, pipe, cqClosed, rdClosed, 
+                               wake, wkClosed, procs, alive, holding, exitLock, 
                                rlock, wlock, mgmt, shut, mgrStarted, mgr, 
                                watch, ready, msg, cur, nStop, nSent, crashes, 
                                timeouts, cancels, execCount, cancelOK, hit, 
@@ -1560,8 +1625,8 @@ wann3(self) == /\ pc[self] = "wann3"
                /\ pc' = [pc EXCEPT ![self] = "wexl"]
                /\ UNCHANGED << shutdownF, brokenF, killF, execAlive, 
                                refsDropped, globalExit, pending, fut, workIds, 
-                               running, sem, buf, pipe, cqClosed, rq, wake, 
-                               wkClosed, procs, alive, holding, exitLock, 
+                               running, sem, buf, pipe, cqClosed, rdClosed, rq, 
+                               wake, wkClosed, procs, alive, holding, exitLock, 
                                announced, rlock, mgmt, shut, mgrStarted, mgr, 
                                watch, ready, msg, cur, nStop, nSent, crashes, 
                                timeouts, cancels, execCount, cancelOK, hit, 
@@ -1572,8 +1637,8 @@ wexl(self) == /\ pc[self] = "wexl"
               /\ pc' = [pc EXCEPT ![self] = "wexit"]
               /\ UNCHANGED << shutdownF, brokenF, killF, execAlive, 
                               refsDropped, globalExit, pending, fut, workIds, 
-                              running, sem, buf, pipe, cqClosed, rq, wake, 
-                              wkClosed, procs, alive, holding, exitLock, 
+                              running, sem, buf, pipe, cqClosed, rdClosed, rq, 
+                              wake, wkClosed, procs, alive, holding, exitLock, 
                               announced, rlock, wlock, mgmt, shut, mgrStarted, 
                               mgr, watch, ready, msg, cur, nStop, nSent, 
                               crashes, timeouts, cancels, execCount, cancelOK, 
@@ -1585,20 +1650,20 @@ wexit(self) == /\ pc[self] = "wexit"
                /\ pc' = [pc EXCEPT ![self] = "wend"]
                /\ UNCHANGED << shutdownF, brokenF, killF, execAlive, 
                                refsDropped, globalExit, pending, fut, workIds, 
-                               running, sem, buf, pipe, cqClosed, rq, wake, 
-                               wkClosed, procs, holding, exitLock, announced, 
-                               rlock, wlock, mgmt, shut, mgrStarted, mgr, 
-                               watch, ready, msg, cur, nStop, nSent, crashes, 
-                               timeouts, cancels, execCount, cancelOK, hit, 
-                               userDone, fop, ut, fobj, item >>
+                               running, sem, buf, pipe, cqClosed, rdClosed, rq, 
+                               wake, wkClosed, procs, holding, exitLock, 
+                               announced, rlock, wlock, mgmt, shut, mgrStarted, 
+                               mgr, watch, ready, msg, cur, nStop, nSent, 
+                               crashes, timeouts, cancels, execCount, cancelOK, 
+                               hit, userDone, fop, ut, fobj, item >>
 
 wend(self) == /\ pc[self] = "wend"
               /\ TRUE
               /\ pc' = [pc EXCEPT ![self] = "Done"]
               /\ UNCHANGED << shutdownF, brokenF, killF, execAlive, 
                               refsDropped, globalExit, pending, fut, workIds, 
-                              running, sem, buf, pipe, cqClosed, rq, wake, 
-                              wkClosed, procs, alive, holding, exitLock, 
+                              running, sem, buf, pipe, cqClosed, rdClosed, rq, 
+                              wake, wkClosed, procs, alive, holding, exitLock, 
                               announced, rlock, wlock, mgmt, shut, mgrStarted, 
                               mgr, watch, ready, msg, cur, nStop, nSent, 
                               crashes, timeouts, cancels, execCount, cancelOK, 
@@ -1621,14 +1686,14 @@ e0 == /\ pc["E"] = "e0"
                       /\ hit' = (hit \cup (IF pc[p] = "wsend2" /\ holding[p] # 0 /\ Kind[holding[p]] = "big" THEN {"D7"} ELSE {})
                                      \cup (IF mgmt = p THEN {"D14"} ELSE {})
                                      \cup (IF pc[p] = "wann3" THEN {"D15"} ELSE {})
-                                     \cup (IF pc["M"] \in {"mj1", "mj2", "mj3", "mj4", "mj5l", "mj5"} /\ ~brokenF THEN {"D16"} ELSE {}))
+                                     \cup (IF pc["M"] \in {"mspend", "mj1", "mj2", "mj3", "mj4", "mj5l", "mj5"} /\ ~brokenF /\ ~JoinWatches THEN {"D16"} ELSE {}))
                  /\ pc' = [pc EXCEPT !["E"] = "e0"]
             ELSE /\ pc' = [pc EXCEPT !["E"] = "Done"]
                  /\ UNCHANGED << alive, crashes, hit >>
       /\ UNCHANGED << shutdownF, brokenF, killF, execAlive, refsDropped, 
                       globalExit, pending, fut, workIds, running, sem, buf, 
-                      pipe, cqClosed, rq, wake, wkClosed, procs, holding, 
-                      exitLock, announced, rlock, wlock, mgmt, shut, 
+                      pipe, cqClosed, rdClosed, rq, wake, wkClosed, procs, 
+                      holding, exitLock, announced, rlock, wlock, mgmt, shut, 
                       mgrStarted, mgr, watch, ready, msg, cur, nStop, nSent, 
                       timeouts, cancels, execCount, cancelOK, userDone, fop, 
                       ut, fobj, item >>
@@ -1649,7 +1714,7 @@ Closing == shutdownF \/ ~execAlive \/ globalExit \/ brokenF
 \* a legitimately final state: everything submitted is resolved, the user returned, and if the executor was closed
 \* its threads are done and no worker is left
 GoodFinal == /\ AllTerminal /\ userDone
-             /\ (Closing /\ mgrStarted => mgr = "done" /\ procs = {} /\ \A p \in Pids : ~Alive(p))
+             /\ (Closing /\ mgrStarted => mgr = "done" /\ procs = {} /\ (\A p \in Pids : ~Alive(p)) /\ pc["F"] # "fhuge")
 \* C01 as a safety property: the only states without a successor are good final states (checked through TLC's
 \* deadlock detection: Finished is the only action enabled in a good final state)
 \* states reached through the window of an open known finding are exempt (they are reproduced separately)
@@ -1659,9 +1724,9 @@ SpecF == Init /\ [][Next \/ Finished]_vars
 \* C03
 AtMostOnce == \A t \in Tasks : execCount[t] <= 1
 CancelMeansNeverRun == \A t \in cancelOK : execCount[t] = 0 /\ fut[t] = "cancelled"
-RightFuture == \A t \in Tasks : fut[t] = "result" => execCount[t] = 1 /\ Kind[t] \in {"ok", "big"}
+RightFuture == \A t \in Tasks : fut[t] = "result" => execCount[t] = 1 /\ Kind[t] \in {"ok", "big", "huge"}
 \* C04: call-queue slots are conserved on every path, including the feeder error path
-SlotConservation == sem + Len(buf) + Len(pipe) + (IF pc["F"] \in {"fsend"} THEN 1 ELSE 0)
+SlotConservation == sem + Len(buf) + Len(pipe) + (IF pc["F"] \in {"fsend", "fhuge"} THEN 1 ELSE 0)
                       + Cardinality({p \in Pids : pc[p] = "wsem"}) = QSize
 \* C08
 BoundedParallelism == Cardinality(procs) <= MaxW /\ Cardinality(Busy) <= MaxW
